@@ -26,14 +26,50 @@ Translation scheme (what the trusted reading of the generated file relies on):
    `Cont state`; the loop is `k_for` / `k_foreach` over it;
  * a `&mut self` method returns the new `self`;
  * functions named in EXTERN for a target are not inlined there: the generated definition takes them as arguments.
-Anything else (match, closures, while, strings, generics, traits objects, ...) is outside the subset: if a TARGET or
+Second part of the subset (units "tetris" and "raw2", generated files Gen/KernelsTetrisGen.v, Gen/KernelsRaw2Gen.v, over the
+record [kxops] of coq/Base/KernelOpsX.v which extends [kops] by k_fail / k_unwrap / i_try_from_q):
+ * a function returning `Result<T, E>` / `LayoutResult<T>` / `TrackResult<T>` has type [M T] like one returning `T`:
+   `Ok(v)` is k_ret, `Err(e)`, `<X>Error::fail(msg)`, `self.fail(msg)`, a failing `self.assert(cond, msg)` are k_fail (the error value is ABSTRACT: neither
+   messages nor error kinds are translated), `e?` is the computation e itself under k_bind, `r.unwrap()` is k_unwrap r,
+   `T::try_from(x)?` / `x.try_into()?` is i_try_from_q; a Result may only be consumed where it is produced (`?`, `.unwrap()`,
+   tail of the function, `return`): a `let` bound to a Result is outside the subset;
+ * `enum` -> an inductive type g<Enum> with constructors g<Enum>_<Variant> (payloads of types outside the subset have type
+   kopaque), `==` on a field-less enum that derives PartialEq -> the generated g<Enum>_eqb; tuple structs -> records with
+   fields 0, 1, ..; a struct that has fields of types outside the subset (String, HashMap, ..) -> a record of the fields
+   the translated functions of the unit USE (read, or set in a struct literal; a string-valued field expression of a
+   literal is then not translated), any other struct -> a record of all its fields;
+ * `match` -> a Gallina match, arms in order; a guard `p if g => e` becomes `p => if g then e else <the later arms>`;
+   `if let p = e {..} else {..}` is the match with arms p and _; a match / if-let in statement position takes the rest of
+   the block into every arm (like `if`);
+ * operators on structs / enums go to the `impl std::ops::<Op><Rhs> for T` of the sources, chosen by the type of the right
+   operand (generated name g_<T>_<op>_<Rhs> when T has several), `a[i]` to `impl Index`; `#[derive(Add, Sub, AddAssign,
+   SubAssign)]` (derive_more) is read as the field-wise operation, `#[derive(PartialOrd)]` on a one-field struct as the
+   comparison of that field;
+ * generic structs are read at ONE instance per unit (GENERIC_INST, e.g. Xy<T> at T = PrimPitches): any other instance in a
+   translated function is a type error of the translation;
+ * `Option`: is_some / is_none / unwrap / expect (None: k_panic) / unwrap_or / ok_or(e)? / map_or(d, |x| e); `Vec`: push / pop /
+   insert(i, x) (assignments to the receiver; insert is v_insert: a panic when i > len), len / is_empty / last / first,
+   `v[i] = x` and `v[i].f = x` (read with v_get, written back with v_set), `for x in v.iter()`, `for (i, x) in ..` (tuple
+   patterns), `.iter().enumerate()`, `.iter().position(|x| p)` (k_position for a closure without effects, k_position_m,
+   element by element, otherwise), `.iter().map(|x| e)` with e without effects, `.sum::<T>()` for a T deriving
+   derive_more's `Sum` (k_sum: `+` folded from the zero value); `T::default()` of a derived Default (zeros, empty Vecs,
+   None); the operator methods `a.rem(b)`, `a.add(b)`, .. on integers; `Ptr<T>` is kptr and `p.read()?` the external
+   operation ext_read_<T>;
+ * `let r = &mut place;` makes r an ALIAS of the place: reads of r read the place again, `r.f = x` assigns to the place
+   (what the place mentions must not be assigned while r lives; no alias inside loops);
+ * statements whose receiver is `self.ctx` (the error-context stack: it only decorates messages) are skipped; a `&mut self`
+   method that returns `Result<()>` and assigns to self returns the new self (`Ok(())`) or the error; any other `&mut self`
+   method that returns a value must not assign to self;
+ * EXTERN functions of a unit, and the functions / methods declared without body in its PRELUDE (items of other crates),
+   are Section variables ext_<Type>_<fn> of the generated file, FOREIGN types are Section variables T_<Type>.
+Anything else (closures elsewhere, while, string operations, trait objects, ...) is outside the subset: if a TARGET or
 something it calls no longer fits, the script prints `FAILED family=<family> fn=<function>: <where and why>`, leaves that
 function out of the generated file (so the tie lemmas about it no longer build) and exits 1 (a broken tie, DESIGN.md 2.3).
 
-Honours VERIF_REPO / VERIF_COQ_DIR; rewrites its output only when the content changes."""
+Honours VERIF_REPO / VERIF_COQ_DIR; rewrites its outputs only when the content changes."""
 import os, sys
 sys.path.insert(0, os.path.dirname(os.path.abspath(__file__)))
-from rustsubset import Unsupported, N, parse_source, parse_fn_body, type_key
+from rustsubset import Unsupported, N, Parser, tokenize, parse_source, parse_fn_body, type_key, parse_type_text
 
 VERIF = os.path.dirname(os.path.dirname(os.path.abspath(__file__)))
 REPO = os.environ.get("VERIF_REPO", "/repo")
@@ -63,70 +99,257 @@ TARGETS = [
 # callee kept abstract (an argument of the generated definition) in the given target
 EXTERN = {"Transform::rotate": ["sin_cos_degrees"], "Transform::from_instance": ["sin_cos_degrees"]}
 
+# ---- the units: one generated file each.  "raw" is the unit of the first version (over [kops], explicit extern arguments);
+# the others are over [kxops] with Section variables for external functions and foreign types.
+TETRIS_PRELUDE = """
+"""
+RAW2_PRELUDE = """
+// rust_decimal::Decimal, as far as LefImporter::import_dist uses it
+impl LefDecimal {
+    fn from(x: u32) -> LefDecimal;
+    fn fract(&self) -> LefDecimal;
+    fn trunc(&self) -> LefDecimal;
+    fn is_zero(&self) -> bool;
+    fn mantissa(&self) -> i128;
+}
+impl std::ops::Mul<LefDecimal> for LefDecimal { fn mul(self, rhs: LefDecimal) -> LefDecimal; }
+// the protobuf schema (vlsir::raw), as far as the translated converters use it
+pub struct proto__Point { pub x: i64, pub y: i64 }
+impl proto__Point { pub fn new(x: i64, y: i64) -> proto__Point { proto__Point { x, y } } }
+pub struct proto__Rectangle { pub net: String, pub lower_left: Option<proto__Point>, pub width: i64, pub height: i64 }
+// gds.rs: `fn import_element_layer(&mut self, elem: &impl gds21::HasLayer)`, at the type of the element import_boundary passes
+impl GdsImporter { fn import_element_layer(&mut self, elem: &GdsBoundary) -> LayoutResult<(LayerKey, LayerPurpose)>; }
+"""
+UNITS = [
+    {"name": "raw", "out": "KernelsGen.v", "files": FILES, "alias_only": ALIAS_ONLY, "targets": TARGETS, "extern_args": EXTERN,
+     "xops": False},
+    {"name": "tetris", "out": "KernelsTetrisGen.v", "xops": True,
+     "files": ["layout21tetris/src/coords.rs", "layout21tetris/src/validate.rs", "layout21tetris/src/stack.rs",
+               "layout21tetris/src/tracks.rs", "layout21tetris/src/placer.rs", "layout21tetris/src/placement.rs",
+               "layout21tetris/src/instance.rs", "layout21tetris/src/bbox.rs", "layout21tetris/src/cell.rs",
+               "layout21tetris/src/outline.rs", "layout21tetris/src/array.rs",
+               ("layout21raw/src/geom.rs", {"Dir"})],
+     "alias_only": set(), "prelude": TETRIS_PRELUDE,
+     "targets": [
+         # family "tetris_stack" (C08): validate.rs, stack.rs
+         ("tetris_stack", "ValidMetalLayer::track_start_width"), ("tetris_stack", "ValidMetalLayer::center"),
+         ("tetris_stack", "ValidMetalLayer::span"), ("tetris_stack", "ValidStack::metal"), ("tetris_stack", "MetalLayer::entries"),
+         ("tetris_stack", "LibValidator::validate_track_ref"), ("tetris_stack", "LibValidator::validate_track_cross"),
+         ("tetris_stack", "ValidMetalLayer::track_index"), ("tetris_stack", "MetalLayer::to_layer_period_data"),
+         ("tetris_stack", "MetalLayer::pitch"),
+         # family "tetris_tracks" (C08): tracks.rs
+         ("tetris_tracks", "Track::cut_or_block"),
+         # family "tetris_place" (C09): instance.rs, placer.rs, bbox.rs, coords.rs, placement.rs
+         ("tetris_place", "Instance::boundbox"), ("tetris_place", "Placer::resolve_instance_place"),
+     ],
+     "generic_inst": {"Xy": ["PrimPitches"], "BoundBox": ["PrimPitches"], "Place": ["Xy<PrimPitches>"]},
+     "foreign": {"Cell", "Outline", "ArrayInstance"},
+     "extern": {"Cell::outline", "Cell::boundbox_size", "Outline::xmax", "Outline::ymax", "ArrayInstance::boundbox"},
+     "result_aliases": {"LayoutResult", "TrackResult"}, "skip_recv": {"self.ctx"}},
+    {"name": "raw2", "out": "KernelsRaw2Gen.v", "xops": True,
+     "files": ["layout21raw/src/data.rs", "layout21raw/src/geom.rs", "layout21raw/src/lef.rs", "layout21raw/src/proto.rs",
+               "layout21raw/src/gds.rs", ("lef21/src/data.rs", {"LefPoint"}), ("gds21/src/data.rs", {"GdsBoundary", "GdsPoint"})],
+     "alias_only": set(), "prelude": RAW2_PRELUDE,
+     "targets": [
+         # family "raw_lef" (C16): lef.rs
+         ("raw_lef", "LefImporter::import_dist"), ("raw_lef", "LefImporter::import_point"),
+         # family "raw_proto" (C14): proto.rs
+         ("raw_proto", "ProtoExporter::export_point"), ("raw_proto", "ProtoExporter::export_rect"),
+         ("raw_proto", "ProtoImporter::import_point"), ("raw_proto", "ProtoImporter::import_rect"),
+         # family "raw_gds" (C06): gds.rs
+         ("raw_gds", "GdsImporter::import_boundary"),
+     ],
+     "generic_inst": {}, "foreign": {"LefDecimal", "LayerKey"}, "extern": {"GdsImporter::import_point_vec"},
+     "result_aliases": {"LayoutResult"}, "skip_recv": {"self.ctx"}},
+]
+
 INT_TAG = {"isize": "Isize", "usize": "Usize", "i128": "I128", "u64": "U64", "i64": "I64", "i32": "I32", "u32": "U32",
            "i16": "I16", "u8": "U8"}
 RESERVED = {"M", "F", "I", "ops", "fst", "snd", "negb", "andb", "orb", "Some", "None", "true", "false", "tt", "nil", "cons",
             "list", "option", "bool", "unit", "Z", "pair", "fix", "end", "in", "at", "as", "match", "exists", "fun", "let",
             "if", "then", "else", "return", "with", "Type", "Set", "Prop", "forall", "struct", "where", "using", "Brk", "Cont",
-            "ctrl", "kops", "nat", "O", "S", "cofix", "for"}
+            "ctrl", "kops", "nat", "O", "S", "cofix", "for", "xops", "kxops", "kptr", "kopaque", "app", "rev", "length"}
 
 def mangle(name):
-    return name + "_" if (name in RESERVED or name.startswith("g_") or name.startswith("ext_") or name.startswith("t__")) else name
+    return name + "_" if (name in RESERVED or name.startswith("g_") or name.startswith("ext_") or name.startswith("t__")
+                          or name.startswith("T_") or name.startswith("m__")) else name
 
 class Val:
-    """a translated expression: kind 'P' (pure Gallina term of the value's type) or 'M' (term of type M <type>)"""
-    def __init__(self, kind, term, ty):
-        self.kind, self.term, self.ty = kind, term, ty
+    """a translated expression: kind 'P' (pure Gallina term of the value's type) or 'M' (term of type M <type>).
+    A value of type ("res", T) (a Rust Result) is always of kind 'M' with a term of type M T."""
+    def __init__(self, kind, term, ty, fail=False):
+        self.kind, self.term, self.ty, self.fail = kind, term, ty, fail
+
+class Ctx:
+    """what `Self`, the type parameters and the associated types mean at some place"""
+    def __init__(self, self_ty=None, impl_generics=(), assoc=None, fn_generics=()):
+        self.self_ty, self.impl_generics, self.assoc, self.fn_generics = self_ty, list(impl_generics), assoc or {}, list(fn_generics)
+
+OP_METHOD = {"+": "add", "-": "sub", "*": "mul", "/": "div", "%": "rem"}
+DERIVABLE = {"add": ("Add", "AddAssign"), "sub": ("Sub", "SubAssign")}
 
 class World:
-    def __init__(self):
-        self.structs, self.fns, self.aliases = {}, {}, {}
+    def __init__(self, unit=None):
+        self.unit = unit or UNITS[0]
+        self.structs, self.fns, self.aliases, self.enums, self.meta = {}, {}, {}, {}, {}
         self.struct_src, self.fn_src = {}, {}
-    def load(self, rel):
-        path = os.path.join(REPO, rel)
-        try:
-            text = open(path, encoding="utf8").read()
-        except OSError as ex:
-            raise Unsupported("cannot read %s: %s" % (path, ex))
+        self.overloads = {}
+        self.bad_structs = {}
+        self.generic_inst = {k: [parse_type_text(t) for t in v] for k, v in self.unit.get("generic_inst", {}).items()}
+        self.foreign = set(self.unit.get("foreign", ()))
+        self.result_aliases = set(self.unit.get("result_aliases", ()))
+    def load(self, rel, only=None, text=None):
+        if text is None:
+            path = os.path.join(REPO, rel)
+            try:
+                text = open(path, encoding="utf8").read()
+            except OSError as ex:
+                raise Unsupported("cannot read %s: %s" % (path, ex))
         out = parse_source(text, rel)
         for k, v in out["aliases"].items():
-            self.aliases[k] = v
-        if rel in ALIAS_ONLY:
+            if only is None or k in only:
+                self.aliases[k] = v
+        if rel in self.unit.get("alias_only", ()):
             return
-        for k, v in out["structs"].items():
-            if k in self.structs and self.structs[k] != v:
-                raise Unsupported("struct %s is defined differently in %s and %s" % (k, self.struct_src[k], rel))
-            self.structs[k] = v; self.struct_src[k] = rel
-        for k, v in out["fns"].items():
-            if k in self.fns:
-                # the same qualified name twice (e.g. two impls of a trait method): keep the first, remember the clash
-                self.fns[k].clash = True
+        for kind, store in (("structs", self.structs), ("enums", self.enums)):
+            for k, v in out[kind].items():
+                if only is not None and k not in only:
+                    continue
+                if not self.unit.get("xops") and (kind == "enums" or out["meta"][k]["tuple"]):
+                    continue        # the first unit knows nothing of enums and tuple structs (its output must not move)
+                if (k in self.structs and (kind != "structs" or self.structs[k] != v)) or (k in self.enums and (kind != "enums" or self.enums[k] != v)):
+                    msg = "type %s is defined differently in %s and %s" % (k, self.struct_src[k], rel)
+                    if not self.unit.get("xops"):
+                        raise Unsupported(msg.replace("type", "struct", 1))
+                    self.bad_structs[k] = msg
+                    continue
+                store[k] = v; self.struct_src[k] = rel; self.meta[k] = out["meta"][k]
+        if not self.unit.get("xops"):
+            # first version: the last definition of a name in a file stands for it; the same name in two files is a clash
+            for k, v in out["fns"].items():
+                v = [f for f in out["allfns"] if f.name == k][-1]
+                if k in self.fns:
+                    self.fns[k].clash = True
+                    continue
+                v.clash = False
+                self.fns[k] = v; self.fn_src[k] = rel
+            return
+        for f in out["allfns"]:
+            if only is not None and f.name.split("::")[0] not in only:
                 continue
-            v.clash = False
-            self.fns[k] = v; self.fn_src[k] = rel
+            f.clash = False
+            f.uname = f.name
+            self.overloads.setdefault(f.name, []).append(f)
+            self.fn_src[f.name] = rel
+    def finish(self):
+        """after all files: the plain name of an overloaded function is ambiguous; operator impls get the type of the
+        right operand into their name"""
+        if not self.unit.get("xops"):
+            return
+        for name, lst in self.overloads.items():
+            pre = [f for f in lst if f.fname.startswith("<prelude")]
+            if pre and len(pre) < len(lst):
+                lst[:] = pre        # a declaration of the prelude REPLACES the item of the sources (a signature outside the subset)
+            self.fns[name] = lst[0]
+            if len(lst) > 1:
+                seen = set()
+                for f in lst:
+                    f.clash = True
+                    if f.trait is not None and f.trait[0] == "gen":
+                        f.uname = name + "_" + "_".join(type_key(a) for a in f.trait[2])
+                    if f.uname in seen:
+                        f.uname = None
+                    seen.add(f.uname)
 
-    def resolve(self, ty, self_ty=None):
-        """expand aliases and Self; named types must be known structs"""
+    def fn_ctx(self, f):
+        return Ctx(f.self_ty, f.impl_generics, f.assoc, f.fn_generics)
+    def struct_ctx(self, name):
+        gens = self.meta.get(name, {}).get("generics", [])
+        return Ctx(("gen", name, tuple(("named", g) for g in gens)) if gens else ("named", name), gens)
+
+    def tparam(self, n, ctx):
+        if ctx is None:
+            return None
+        if n in ctx.impl_generics:
+            st = ctx.self_ty
+            if st is not None and st[0] == "gen" and st[1] in self.generic_inst:
+                for i, a in enumerate(st[2]):
+                    if a == ("named", n) and i < len(self.generic_inst[st[1]]):
+                        return self.resolve(self.generic_inst[st[1]][i])
+            raise Unsupported("type parameter %s of a generic impl that is not instantiated for this unit (GENERIC_INST)" % n)
+        if n in ctx.fn_generics:
+            raise Unsupported("type parameter %s of a generic function" % n)
+        return None
+
+    def nominal(self, n, args, ctx):
+        if n in self.bad_structs:
+            raise Unsupported(self.bad_structs[n])
+        if n in self.foreign:
+            return ("foreign", n)
+        if n in self.structs or n in self.enums:
+            gens = self.meta[n]["generics"]
+            if gens:
+                inst = self.generic_inst.get(n)
+                if inst is None or len(inst) != len(gens):
+                    raise Unsupported("generic type %s is not instantiated for this unit (GENERIC_INST)" % n)
+                if args:
+                    if len(args) != len(gens):
+                        raise Unsupported("%s takes %d type arguments" % (n, len(gens)))
+                    for a, i in zip(args, inst):
+                        if self.resolve(a, ctx) != self.resolve(i):
+                            raise Unsupported("%s<%s> is not the instance of %s fixed for this unit" % (n, type_key(a), n))
+            elif args:
+                raise Unsupported("%s takes no type arguments" % n)
+            return ("struct", n) if n in self.structs else ("enum", n)
+        if not self.unit.get("xops"):
+            raise Unsupported("type %s is not a struct or alias of the translated files" % n)
+        raise Unsupported("type %s is not a struct, enum or alias of the translated files" % n)
+
+    def resolve(self, ty, ctx=None):
+        """expand aliases, Self, type parameters and associated types; named types must be known structs / enums"""
         if ty is None:
             raise Unsupported("a type outside the subset is needed here")
+        if ctx is not None and not isinstance(ctx, Ctx):
+            ctx = Ctx(ctx)          # first version: the second argument was the self type
         k = ty[0]
         if k == "self":
-            if self_ty is None:
+            if ctx is None or ctx.self_ty is None:
                 raise Unsupported("`Self` outside an impl")
-            return self.resolve(self_ty)
+            return self.resolve(ctx.self_ty, ctx)
+        if k == "assoc":
+            if ctx is None or ctx.assoc.get(ty[1]) is None:
+                raise Unsupported("the associated type Self::%s is not defined (in the subset) in this impl" % ty[1])
+            return self.resolve(ctx.assoc[ty[1]], ctx)
         if k == "named":
+            sub = self.tparam(ty[1], ctx)
+            if sub is not None:
+                return sub
             if ty[1] in self.aliases:
                 return self.resolve(self.aliases[ty[1]])
-            if ty[1] in self.structs:
-                return ("struct", ty[1])
-            raise Unsupported("type %s is not a struct or alias of the translated files" % ty[1])
+            return self.nominal(ty[1], (), ctx)
+        if k == "gen":
+            n, args = ty[1], ty[2]
+            if n in self.result_aliases and len(args) >= 1:
+                return ("res", self.resolve(args[0], ctx))
+            if n == "Ptr" and len(args) == 1 and self.unit.get("xops"):
+                return ("ptr", self.resolve(args[0], ctx))
+            if not self.unit.get("xops"):
+                raise Unsupported("generic type %s<..> is outside the subset" % n)
+            return self.nominal(n, args, ctx)
+        if k == "res":
+            return ("res", self.resolve(ty[1], ctx))
         if k == "arr":
-            return ("arr", self.resolve(ty[1], self_ty), ty[2])
+            return ("arr", self.resolve(ty[1], ctx), ty[2])
         if k == "tup":
-            return ("tup", tuple(self.resolve(t, self_ty) for t in ty[1]))
+            return ("tup", tuple(self.resolve(t, ctx) for t in ty[1]))
         if k in ("vec", "opt"):
-            return (k, self.resolve(ty[1], self_ty))
+            return (k, self.resolve(ty[1], ctx))
         return ty
+    def resolve_or_opaque(self, ty, ctx=None):
+        try:
+            return self.resolve(ty, ctx)
+        except Unsupported:
+            return ("opaque",)
 
 def cty(ty):
     k = ty[0]
@@ -150,6 +373,14 @@ def cty(ty):
         return "(list %s)" % cty(ty[1])
     if k == "opt":
         return "(option %s)" % cty(ty[1])
+    if k == "enum":
+        return "(g%s F I)" % ty[1]
+    if k == "ptr":
+        return "kptr"
+    if k == "foreign":
+        return "T_%s" % ty[1]
+    if k == "opaque":
+        return "kopaque"
     raise Unsupported("type %r has no Gallina rendering" % (ty,))
 
 def tag(ty):
@@ -180,8 +411,33 @@ def names_used(node, acc):
             names_used(x, acc)
     return acc
 
+MUTATORS = ("push", "pop", "insert")      # Vec methods that are assignments to their receiver
+
+def has_kind(node, kind):
+    if isinstance(node, N):
+        if node.kind == kind:
+            return True
+        return any(has_kind(v, kind) for k, v in node.__dict__.items() if k not in ("kind", "line"))
+    if isinstance(node, (list, tuple)):
+        return any(has_kind(x, kind) for x in node)
+    return False
+
+def mutates_self(node, skip_recv):
+    """does the body assign to self (directly, through a Vec method, or through `&mut self.place`)?"""
+    if isinstance(node, N):
+        if node.kind == "assign" and node.lhs.kind != "tuple" and lvalue_root(node.lhs) == "self":
+            return True
+        if node.kind == "mcall" and node.name in MUTATORS and lvalue_root(node.recv) == "self" and place_text(node.recv) not in skip_recv:
+            return True
+        if node.kind == "refmut" and lvalue_root(node) == "self":
+            return True
+        return any(mutates_self(v, skip_recv) for k, v in node.__dict__.items() if k not in ("kind", "line"))
+    if isinstance(node, (list, tuple)):
+        return any(mutates_self(x, skip_recv) for x in node)
+    return False
+
 def lvalue_root(e):
-    while e.kind in ("field", "index", "tupidx"):
+    while e.kind in ("field", "index", "tupidx", "refmut"):
         e = e.e
     if e.kind == "path" and len(e.segs) == 1:
         return e.segs[0]
@@ -199,6 +455,10 @@ def assigned_roots(node, acc):
                 r = lvalue_root(node.lhs)
                 if r:
                     acc.append(r)
+        if node.kind == "mcall" and node.name in MUTATORS:
+            r = lvalue_root(node.recv)
+            if r:
+                acc.append(r)
         for k, v in node.__dict__.items():
             if k in ("kind", "line"):
                 continue
@@ -216,6 +476,14 @@ def let_names(node, acc):
             pat_names(node.pat, acc)
         if node.kind == "if" and node.letvar:
             acc.add(node.letvar)
+        if node.kind == "if" and getattr(node, "letpat", None) is not None:
+            pat_names(node.letpat, acc)
+        if node.kind == "match":
+            for p_, g_, b_ in node.arms:
+                pat_names(p_, acc)
+        if node.kind == "closure":
+            for p_ in node.params:
+                pat_names(p_, acc)
         for k, v in node.__dict__.items():
             if k in ("kind", "line"):
                 continue
@@ -228,19 +496,93 @@ def let_names(node, acc):
 def pat_names(p, acc):
     if p.kind == "pvar":
         acc.add(p.name)
-    elif p.kind == "ptup":
+    elif p.kind in ("ptup", "pts"):
         for q in p.pats:
             pat_names(q, acc)
+    elif p.kind == "pstruct":
+        for _, q in p.fields:
+            pat_names(q, acc)
+    elif p.kind == "por":
+        for q in p.alts:
+            pat_names(q, acc)
     return acc
+
+def unify(a, b):
+    """the common type of a and b, None standing for `not known` / `diverges`; raises ValueError when there is none"""
+    if a is None:
+        return b
+    if b is None:
+        return a
+    if a == b:
+        return a
+    if a[0] == b[0] and a[0] in ("res", "opt", "vec"):
+        return (a[0], unify(a[1], b[1]))
+    if a[0] == b[0] == "tup" and len(a[1]) == len(b[1]):
+        return ("tup", tuple(unify(x, y) for x, y in zip(a[1], b[1])))
+    raise ValueError
+
+def place_text(e):
+    """`self.ctx` for the expression self.ctx; None for anything that is not a chain of fields from a name"""
+    if e.kind == "refmut":
+        return place_text(e.e)
+    if e.kind == "path" and len(e.segs) == 1:
+        return e.segs[0]
+    if e.kind == "field":
+        b = place_text(e.e)
+        return None if b is None else b + "." + e.name
+    return None
+
+# ---- exhaustiveness of a list of patterns (Maranget's usefulness), on normalised patterns:
+#      ("w",) wildcard / binding, ("c", constructor, [sub-patterns]), ("o", [alternatives])
+def useful(rows, q, tys, ctors_of):
+    """is the pattern vector q useful after the rows (all of the types tys)?"""
+    if not q:
+        return not rows
+    rows2 = []
+    for r in rows:          # expand or-patterns in the first column
+        if r[0][0] == "o":
+            for alt in r[0][1]:
+                rows2.append([alt] + r[1:])
+        else:
+            rows2.append(r)
+    rows = rows2
+    q0 = q[0]
+    if q0[0] == "o":
+        return any(useful(rows, [alt] + q[1:], tys, ctors_of) for alt in q0[1])
+    ctors = ctors_of(tys[0])       # [(name, [payload types])] or None (infinite / unknown)
+    def specialise(c, arity, rws):
+        out = []
+        for r in rws:
+            if r[0][0] == "w":
+                out.append([("w",)] * arity + r[1:])
+            elif r[0][0] == "c" and r[0][1] == c:
+                out.append(list(r[0][2]) + r[1:])
+        return out
+    if q0[0] == "c":
+        sub_tys = None
+        if ctors is not None:
+            for cn, ts in ctors:
+                if cn == q0[1]:
+                    sub_tys = ts
+        if sub_tys is None:
+            sub_tys = [None] * len(q0[2])
+        return useful(specialise(q0[1], len(q0[2]), rows), list(q0[2]) + q[1:], list(sub_tys) + tys[1:], ctors_of)
+    heads = {r[0][1] for r in rows if r[0][0] == "c"}
+    if ctors is not None and ctors and all(cn in heads for cn, _ in ctors):
+        return any(useful(specialise(cn, len(ts), rows), [("w",)] * len(ts) + q[1:], list(ts) + tys[1:], ctors_of) for cn, ts in ctors)
+    return useful([r[1:] for r in rows if r[0][0] == "w"], q[1:], tys[1:], ctors_of)
 
 class FnGen:
     def __init__(self, tr, fn):
         self.tr, self.w, self.fn = tr, tr.w, fn
-        self.self_ty = self.w.resolve(fn.self_ty) if fn.self_ty is not None else None
+        self.unit = tr.unit
+        self.x = bool(self.unit.get("xops"))
+        self.ctx = self.w.fn_ctx(fn) if self.x else Ctx(fn.self_ty)
+        self.self_ty = self.w.resolve(fn.self_ty, self.ctx) if fn.self_ty is not None else None
         self.tmp = 0
         self.aux = []
         self.nloop = 0
-        self.externs = EXTERN.get(fn.name, [])
+        self.externs = self.unit.get("extern_args", {}).get(fn.name, [])
         self.mut_self = False
         self.structs_used = set()
 
@@ -251,19 +593,29 @@ class FnGen:
         return "t__%d" % self.tmp
     def res(self, ty, node=None):
         try:
-            t = self.w.resolve(ty, self.fn.self_ty)
+            t = self.w.resolve(ty, self.ctx)
         except Unsupported as ex:
             self.err(node or self.fn, str(ex))
         self.note_struct(t)
         return t
     def note_struct(self, t):
-        if t[0] == "struct":
+        if t is None:
+            return
+        if t[0] in ("struct", "enum"):
             self.structs_used.add(t[1])
-        elif t[0] in ("arr", "vec", "opt"):
+        elif t[0] == "foreign":
+            self.tr.foreign_used.add(t[1])
+        elif t[0] in ("arr", "vec", "opt", "res", "ptr"):
             self.note_struct(t[1])
         elif t[0] == "tup":
             for x in t[1]:
                 self.note_struct(x)
+    def mk(self, sn):
+        """the record constructor; in the second part of the subset with its (phantom) parameters, which Coq cannot always infer"""
+        return "@mk_g%s F I" % sn if self.x else "mk_g%s" % sn
+    def fields_of(self, sn):
+        """the kept fields of struct sn: [(name, resolved type)]"""
+        return self.tr.kept_fields(sn)
 
     # ---- plumbing
     def ret(self, term):
@@ -287,13 +639,10 @@ class FnGen:
         return Val("M", body, r.ty)
 
     def same(self, a, b, node, what):
-        if a is None:
-            return b
-        if b is None:
-            return a
-        if a != b:
+        try:
+            return unify(a, b)
+        except ValueError:
             self.err(node, "type mismatch in %s: %r against %r" % (what, a, b))
-        return a
 
     # ---- patterns
     def pat_str(self, p):
@@ -352,15 +701,14 @@ class FnGen:
                 ty = b.ty
                 if ty is None or ty[0] != "struct":
                     self.err(e, "field .%s of a value of type %r" % (e.name, ty))
-                for fn, ft in self.w.structs[ty[1]]:
-                    if fn == e.name:
-                        return Val("P", "(g%s_%s %s)" % (ty[1], fn, ns[0]), self.res(ft, e))
-                self.err(e, "struct %s has no field %s" % (ty[1], e.name))
+                return self.proj(ty[1], e.name, ns[0], e)
             return self.seq([b], build)
         if k == "tupidx":
             b = self.ex(e.e, env)
             def build(ns):
                 ty = b.ty
+                if ty is not None and ty[0] == "struct" and self.w.meta.get(ty[1], {}).get("tuple"):
+                    return self.proj(ty[1], str(e.idx), ns[0], e)
                 if ty is None or ty[0] != "tup" or e.idx >= len(ty[1]):
                     self.err(e, "tuple index .%d of a value of type %r" % (e.idx, ty))
                 return Val("P", self.tup_proj(ns[0], len(ty[1]), e.idx), ty[1][e.idx])
@@ -376,6 +724,9 @@ class FnGen:
                 if i.ty != ("int", "usize"):
                     self.err(e, "Vec index of type %r" % (i.ty,))
                 return self.seq([b, i], lambda ns: Val("M", "(v_get ops %s %s)" % (ns[0], ns[1]), b.ty[1]))
+            if self.x and b.ty is not None and b.ty[0] in ("struct", "enum", "foreign"):
+                f = self.pick_overload(b.ty[1], "index", e.idx, env, e)
+                return self.emit_call(f[0], [e.idx], b, env, e, arg_vals=f[1])
             self.err(e, "index into a value of type %r" % (b.ty,))
         if k == "un":
             if e.op == "-":
@@ -384,12 +735,16 @@ class FnGen:
                     tag(ty)
                     return Val("P", "(i_lit ops (-%d))" % e.e.val, ty)
                 a = self.ex(e.e, env, expect)
+                if self.x and a.ty is not None and a.ty[0] in ("struct", "enum", "foreign"):
+                    return self.emit_call(self.callee("%s::neg" % a.ty[1], e), [], a, env, e)
                 if a.ty == ("f64",):
                     return self.seq([a], lambda ns: Val("M", "(f_neg ops %s)" % ns[0], a.ty))
                 if a.ty is not None and a.ty[0] == "int":
                     return self.seq([a], lambda ns: Val("M", "(i_neg ops %s %s)" % (tag(a.ty), ns[0]), a.ty))
                 self.err(e, "unary minus on %r" % (a.ty,))
             a = self.ex(e.e, env, expect)
+            if self.x and a.ty is not None and a.ty[0] in ("struct", "enum", "foreign"):
+                return self.emit_call(self.callee("%s::not" % a.ty[1], e), [], a, env, e)
             if a.ty != ("bool",):
                 self.err(e, "`!` on %r (only bool is in the subset)" % (a.ty,))
             return self.seq([a], lambda ns: Val("P", "(negb %s)" % ns[0], ("bool",)))
@@ -445,6 +800,13 @@ class FnGen:
             return self.seq(vs, lambda ns: Val("P", "(" + " :: ".join(ns + ["nil"]) + ")", ("vec", elt)))
         if k == "structlit":
             name = e.name
+            segs = getattr(e, "segs", [name])
+            if self.x and len(segs) >= 2:
+                en = segs[-2]
+                if en == "Self" and self.self_ty is not None and self.self_ty[0] == "enum":
+                    en = self.self_ty[1]
+                if en in self.w.enums:
+                    return self.variant_value(en, name, dict(e.fields), e.fields, env, e)
             if name == "Self":
                 if self.self_ty is None or self.self_ty[0] != "struct":
                     self.err(e, "`Self { .. }` outside a struct impl")
@@ -459,14 +821,35 @@ class FnGen:
             given = dict(e.fields)
             if set(given) != {f for f, _ in decl} or len(e.fields) != len(decl):
                 self.err(e, "struct literal %s does not list exactly the declared fields" % name)
+            kept = dict(self.tr.literal_fields(name))
             # Rust evaluates the field expressions in the order WRITTEN; the record is built in declaration order
-            written = [(f, self.ex(x, env, self.res(dict(decl)[f], e))) for f, x in e.fields]
-            for f, v in written:
-                self.same(self.res(dict(decl)[f], e), v.ty, e, "field %s of %s" % (f, name))
+            written = []
+            for f, x in e.fields:
+                if f in kept:
+                    v = self.ex(x, env, kept[f])
+                    self.same(kept[f], v.ty, e, "field %s of %s" % (f, name))
+                    written.append((f, v))
+                elif not self.skippable(x):
+                    self.err(e, "field %s of %s has a type outside the subset and its value is not a plain string expression" % (f, name))
             def build(ns):
                 m = {f: n for (f, _), n in zip(written, ns)}
-                return Val("P", "(mk_g%s %s)" % (name, " ".join(m[f] for f, _ in decl)), ("struct", name))
+                return Val("P", "(%s%s)" % (self.mk(name), "".join(" " + m[f] for f, _ in decl if f in kept)), ("struct", name))
             return self.seq([v for _, v in written], build)
+        if k == "str":
+            return Val("P", "kopaque_any", ("opaque",))
+        if k == "refmut":
+            return self.ex(e.e, env, expect)
+        if k == "try":
+            return self.ex_try(e, env, expect)
+        if k == "match":
+            esc = [r for r in assigned_roots(e, []) if r in env and r not in let_names(e, set())]
+            if esc:
+                self.err(e, "assignment to %s inside a match that is used as a value" % ", ".join(sorted(set(esc))))
+            return self.match_(e, None, env, KValue(self, expect), value=True)
+        if k == "closure":
+            self.err(e, "a closure here is outside the subset (only as the argument of map_or / position)")
+        if k in ("break", "continue"):
+            self.err(e, "`%s` is outside the subset" % k)
         if k in ("block", "if"):
             # a block used as a VALUE: what it assigns would not flow out of it in this translation
             esc = [r for r in assigned_roots(e, []) if r in env and r not in let_names(e, set())]
@@ -478,10 +861,158 @@ class FnGen:
         if k == "macro":
             if e.name in ("unimplemented", "unreachable", "todo", "panic"):
                 return Val("M", "(k_panic ops)", None)
+            if self.x and e.name == "format":
+                return Val("P", "kopaque_any", ("opaque",))
             self.err(e, "macro %s! is outside the subset" % e.name)
         if k == "return":
             self.err(e, "`return` inside an expression (only as a statement of a block in tail position)")
         self.err(e, "expression kind %s is outside the subset" % k)
+
+    def proj(self, sn, fname, term, node):
+        decl = dict(self.w.structs[sn])
+        if fname not in decl:
+            self.err(node, "struct %s has no field %s" % (sn, fname))
+        try:
+            ft = self.w.resolve(decl[fname], self.w.struct_ctx(sn) if self.x else self.ctx)
+        except Unsupported as ex:
+            self.err(node, "field %s of %s: %s" % (fname, sn, ex))
+        self.tr.use_field(sn, fname)
+        self.note_struct(ft)
+        self.structs_used.add(sn)
+        return Val("P", "(g%s_%s %s)" % (sn, fname, term), ft)
+
+    def skippable(self, x):
+        """an expression that only builds a string (its evaluation has no effect the models follow)"""
+        if x.kind in ("str",):
+            return True
+        if x.kind == "macro" and x.name == "format":
+            return True
+        if place_text(x) is not None:
+            return True
+        if x.kind == "mcall" and x.name in ("into", "to_string", "clone", "to_owned", "as_str") and not x.args:
+            return self.skippable(x.recv)
+        if x.kind == "call" and len(x.path) == 2 and x.path[0] == "String" and x.path[1] in ("from", "new"):
+            return all(self.skippable(a) for a in x.args)
+        return False
+
+    def default_term(self, ty, node):
+        """the value of a derived `Default::default()`"""
+        if ty[0] == "vec":
+            return "nil"
+        if ty[0] == "opt":
+            return "None"
+        if ty[0] == "int":
+            return "(i_lit ops 0)"
+        if ty == ("bool",):
+            return "false"
+        if ty == ("f64",):
+            return "(f_zero ops)"
+        if ty[0] == "struct" and "Default" in self.w.meta[ty[1]]["derives"] and "%s::default" % ty[1] not in self.w.fns:
+            fields = self.tr.literal_fields(ty[1])
+            if len(fields) != len(self.w.structs[ty[1]]):
+                self.err(node, "%s::default(): the struct has fields of types outside the subset" % ty[1])
+            self.structs_used.add(ty[1])
+            return "(%s%s)" % (self.mk(ty[1]), "".join(" " + self.default_term(ft, node) for _, ft in fields))
+        self.err(node, "Default::default() at the type %r" % (ty,))
+
+    def fail_val(self):
+        return Val("M", "(k_fail xops)", ("res", None), fail=True)
+
+    def variant_value(self, en, vn, given, written_order, env, node):
+        """the value `En::Vn(args)` / `En::Vn { f: e, .. }` / `En::Vn`; given: positional list or field dict"""
+        kind, tys, names = self.tr.variant(en, vn, node, self)
+        self.structs_used.add(en)
+        if kind == "unit":
+            if given:
+                self.err(node, "%s::%s takes no arguments" % (en, vn))
+            return Val("P", "(@g%s_%s F I)" % (en, vn), ("enum", en))
+        if kind == "struct":
+            if not isinstance(given, dict) or set(given) != set(names):
+                self.err(node, "%s::%s { .. } does not list exactly the declared fields" % (en, vn))
+            order = [f for f, _ in written_order]
+            exprs = [given[f] for f in order]
+            pos = [names.index(f) for f in order]
+        else:
+            if isinstance(given, dict) or len(given) != len(tys):
+                self.err(node, "%s::%s takes %d arguments" % (en, vn, len(tys)))
+            exprs, pos = list(given), list(range(len(tys)))
+        vals = []
+        for x, i in zip(exprs, pos):
+            if tys[i] == ("opaque",):
+                if not self.skippable(x):
+                    self.err(node, "argument %d of %s::%s has a type outside the subset and is not a plain string expression" % (i, en, vn))
+                vals.append(Val("P", "kopaque_any", ("opaque",)))
+            else:
+                v = self.ex(x, env, tys[i])
+                self.same(tys[i], v.ty, node, "argument %d of %s::%s" % (i, en, vn))
+                vals.append(v)
+        def build(ns):
+            m = dict(zip(pos, ns))
+            return Val("P", "(@g%s_%s F I %s)" % (en, vn, " ".join(m[i] for i in range(len(tys)))), ("enum", en))
+        return self.seq(vals, build)
+
+    def ex_try(self, e, env, expect):
+        v = self.ex(e.e, env, ("res", expect))
+        if v.ty is not None and v.ty[0] == "tryres":
+            fr, to = v.ty[1], v.ty[2]
+            return self.seq([Val(v.kind, v.term, fr)], lambda ns: Val("M", "(i_try_from_q xops %s %s %s)" % (tag(fr), tag(to), ns[0]), to))
+        if v.ty is None or v.ty[0] != "res":
+            self.err(e, "`?` on a value of type %r" % (v.ty,))
+        return Val("M", v.term, v.ty[1], fail=v.fail)
+
+    def eq_term(self, ty, a, b, node):
+        """pure boolean term for `a == b` at a type with a derived / primitive equality"""
+        if ty == ("f64",):
+            return "(f_eq ops %s %s)" % (a, b)
+        if ty is not None and ty[0] == "int":
+            return "(i_eq ops %s %s)" % (a, b)
+        if ty == ("bool",):
+            return "(Bool.eqb %s %s)" % (a, b)
+        if ty is not None and ty[0] == "enum" and "PartialEq" in self.w.meta[ty[1]]["derives"]:
+            if all(v[1] == "unit" for v in self.w.enums[ty[1]]):
+                self.tr.enum_eq.add(ty[1])
+                self.structs_used.add(ty[1])
+                return "(g%s_eqb %s %s)" % (ty[1], a, b)
+        if ty is not None and ty[0] == "struct" and "PartialEq" in self.w.meta[ty[1]]["derives"]:
+            kept = self.fields_of(ty[1])
+            if len(kept) == len(self.w.structs[ty[1]]) and kept:
+                parts = []
+                for f, ft in kept:
+                    self.tr.use_field(ty[1], f)
+                    parts.append(self.eq_term(ft, "(g%s_%s %s)" % (ty[1], f, a), "(g%s_%s %s)" % (ty[1], f, b), node))
+                t = parts[-1]
+                for q in reversed(parts[:-1]):
+                    t = "(andb %s %s)" % (q, t)
+                return t
+        self.err(node, "`==` at the type %r (no primitive or derived, field-by-field equality in the subset)" % (ty,))
+
+    def pick_overload(self, tname, method, rhs_node, env, node):
+        """the impl of an operator method of type tname for this right operand: (fn item, [translated operand] or None)"""
+        cands = list(self.w.overloads.get("%s::%s" % (tname, method), []))
+        if not cands:
+            d = self.tr.derived(tname, method)
+            if d is not None:
+                cands = [d]
+        if not cands:
+            self.err(node, "no `%s` for the type %s in the translated files (impl std::ops / derive)" % (method, tname))
+        if len(cands) == 1:
+            return cands[0], None
+        def rhs_ty(f):
+            try:
+                ps = self.tr.signature(f)["params"]
+                return ps[1][1] if len(ps) == 2 else None
+            except Unsupported:
+                return None
+        if untyped_int(rhs_node):
+            ints = [f for f in cands if (rhs_ty(f) or ("?",))[0] == "int"]
+            if len(ints) == 1:
+                return ints[0], None
+            self.err(node, "`%s` of %s with an integer literal: %d impls take an integer" % (method, tname, len(ints)))
+        r = self.ex(rhs_node, env)
+        hit = [f for f in cands if rhs_ty(f) is not None and rhs_ty(f) == r.ty]
+        if len(hit) != 1:
+            self.err(node, "`%s` of %s with a right operand of type %r: %d impls fit" % (method, tname, r.ty, len(hit)))
+        return hit[0], [r]
 
     def tup_proj(self, term, n, i):
         # Coq tuples are left-nested pairs: (a, b, c) = ((a, b), c)
@@ -497,8 +1028,18 @@ class FnGen:
         if len(segs) == 1:
             nm = segs[0]
             if nm in env:
+                if env[nm] is not None and env[nm][0] == "alias":
+                    return self.ex(env[nm][1], env)      # `let nm = &mut place;`: every use reads the place
                 return Val("P", mangle(nm), env[nm])
+            if self.x and nm == "None":
+                return Val("P", "None", ("opt", None))
             self.err(e, "unknown name %s" % nm)
+        if self.x and len(segs) == 2:
+            en = segs[0]
+            if en == "Self" and self.self_ty is not None and self.self_ty[0] == "enum":
+                en = self.self_ty[1]
+            if en in self.w.enums and en not in self.w.bad_structs:
+                return self.variant_value(en, segs[1], [], [], env, e)
         if len(segs) == 2 and segs[1] in ("MAX", "MIN"):
             t = self.res(("named", segs[0]) if segs[0] not in INT_TAG else ("int", segs[0]), e)
             if t[0] == "int":
@@ -544,6 +1085,26 @@ class FnGen:
         if op in ("==", "!=", "<", "<=", ">", ">="):
             l, r = self.operands(e, env, None)
             ty = self.same(l.ty, r.ty, e, "comparison")
+            if self.x and ty is not None and ty[0] in ("struct", "enum"):
+                if op in ("==", "!="):
+                    def build_eq(ns):
+                        t = self.eq_term(ty, ns[0], ns[1], e)
+                        return Val("P", t if op == "==" else "(negb %s)" % t, ("bool",))
+                    return self.seq([l, r], build_eq)
+                # a derived PartialOrd on a one-field struct compares that field
+                kept = self.fields_of(ty[1]) if ty[0] == "struct" else []
+                if not ("PartialOrd" in self.w.meta[ty[1]]["derives"] and len(kept) == 1 and len(self.w.structs[ty[1]]) == 1
+                        and kept[0][1][0] in ("int", "f64")):
+                    self.err(e, "`%s` at the type %r" % (op, ty))
+                fn_, ft_ = kept[0]
+                self.tr.use_field(ty[1], fn_)
+                pfx = "f_" if ft_ == ("f64",) else "i_"
+                def build_ord(ns):
+                    a, b = ["(g%s_%s %s)" % (ty[1], fn_, n) for n in ns]
+                    t = {"<": "(%slt ops %s %s)" % (pfx, a, b), "<=": "(%sle ops %s %s)" % (pfx, a, b),
+                         ">": "(%slt ops %s %s)" % (pfx, b, a), ">=": "(%sle ops %s %s)" % (pfx, b, a)}[op]
+                    return Val("P", t, ("bool",))
+                return self.seq([l, r], build_ord)
             if ty == ("f64",):
                 p = "f_"
             elif ty is not None and ty[0] == "int":
@@ -564,6 +1125,12 @@ class FnGen:
                 self.err(e, "shift of %r by %r" % (l.ty, r.ty))
             return self.seq([l, r], lambda ns: Val("M", "(%s ops %s %s %s)" % (self.ARITH_I[op], tag(l.ty), ns[0], ns[1]), l.ty))
         if op in ("+", "-", "*", "/", "%", "&", "|"):
+            if self.x and op in OP_METHOD and not untyped_int(e.l):
+                l0 = self.ex(e.l, env, expect if not untyped_int(e.r) else None)
+                if l0.ty is not None and l0.ty[0] in ("struct", "enum", "foreign"):
+                    f, rv = self.pick_overload(l0.ty[1], OP_METHOD[op], e.r, env, e)
+                    return self.emit_call(f, [e.r], l0, env, e, arg_vals=rv)
+                # an operand of a primitive type: as before (the left operand is translated again, with no other effect)
             l, r = self.operands(e, env, expect)
             ty = self.same(l.ty, r.ty, e, "operator " + op)
             f = self.arith(op, ty, e)
@@ -578,8 +1145,15 @@ class FnGen:
             self.err(node, "%s is defined more than once (ambiguous)" % qn)
         return f
 
-    def emit_call(self, f, args_nodes, recv_val, env, node):
-        """call of the translated (or extern) function item f; recv_val: already translated receiver or None"""
+    def is_extern(self, f):
+        if not self.x:
+            return f.name in self.externs
+        return (f.body_range is None or f.name in self.unit.get("extern", ())
+                or f.name in self.unit.get("extern_in", {}).get(self.fn.name, ()))
+
+    def emit_call(self, f, args_nodes, recv_val, env, node, arg_vals=None):
+        """call of the translated (or extern) function item f; recv_val: already translated receiver or None;
+        arg_vals: the already translated arguments, when the caller had to translate them to choose f"""
         sig = self.tr.signature(f)
         params = sig["params"]
         vals = []
@@ -593,30 +1167,107 @@ class FnGen:
             vals.append(recv_val); pi = 1
         if len(params) - pi != len(args_nodes):
             self.err(node, "%s takes %d arguments, %d given" % (f.name, len(params) - pi, len(args_nodes)))
-        for (pn, pt), a in zip(params[pi:], args_nodes):
-            v = self.ex(a, env, pt)
+        for i, ((pn, pt), a) in enumerate(zip(params[pi:], args_nodes)):
+            v = arg_vals[i] if arg_vals is not None else self.ex(a, env, pt)
             self.same(pt, v.ty, node, "argument %s of %s" % (pn, f.name))
             vals.append(v)
-        if f.name in self.externs:
-            head = "ext_" + f.name.replace("::", "_")
+        if self.is_extern(f):
+            head = "ext_" + self.tr.uname(f).replace("::", "_")
+            if self.x:
+                self.tr.use_extern(f, self)
         else:
-            if EXTERN.get(f.name):
+            if self.unit.get("extern_args", {}).get(f.name):
                 self.err(node, "%s has abstract callees and cannot be called from a translated function" % f.name)
-            self.tr.need(f.name)
-            head = "g_" + f.name.replace("::", "_")
+            self.tr.need_fn(f)
+            head = "g_" + self.tr.uname(f).replace("::", "_")
         self.note_struct(sig["ret"])
         if not vals:
             return Val("M", head, sig["ret"])
         return self.seq(vals, lambda ns: Val("M", "(%s %s)" % (head, " ".join(ns)), sig["ret"]))
 
+    def ctor_call(self, e, env, expect):
+        """calls that build a value: Some / Ok / Err / X::fail, tuple structs, enum variants, T::from; None if e is no such call"""
+        segs = e.path
+        if segs == ["Some"] and len(e.args) == 1:
+            v = self.ex(e.args[0], env, expect[1] if (expect is not None and expect[0] == "opt") else None)
+            return self.seq([v], lambda ns: Val("P", "(Some %s)" % ns[0], ("opt", v.ty)))
+        if segs == ["Ok"] and len(e.args) == 1:
+            v = self.ex(e.args[0], env, expect[1] if (expect is not None and expect[0] == "res") else None)
+            if v.ty is not None and v.ty[0] in ("res", "tryres"):
+                self.err(e, "Ok(..) of a Result")
+            return self.seq([v], lambda ns: Val("M", self.ret(ns[0]), ("res", v.ty)))
+        if segs == ["Err"] and len(e.args) == 1:
+            return self.fail_val()
+        if len(segs) == 2 and segs[1] == "fail" and segs[0].endswith("Error"):
+            return self.fail_val()
+        if len(segs) == 2 and segs[1] == "from" and len(e.args) == 1 and segs[0] in ("f64",) + tuple(INT_TAG):
+            a = self.ex(e.args[0], env)
+            if a.ty is None or a.ty[0] != "int":
+                self.err(e, "%s::from of a value of type %r" % (segs[0], a.ty))
+            if segs[0] == "f64":
+                return self.seq([a], lambda ns: Val("M", "(i_to_f ops %s %s)" % (tag(a.ty), ns[0]), ("f64",)))
+            to = ("int", segs[0])
+            if a.ty == to:
+                return a
+            return self.seq([a], lambda ns: Val("M", "(i_cast ops %s %s %s)" % (tag(a.ty), tag(to), ns[0]), to))
+        if len(segs) == 2 and segs[1] == "default" and not e.args:
+            head = segs[0]
+            if head == "Self" and self.self_ty is not None and self.self_ty[0] == "struct":
+                head = self.self_ty[1]
+            if head in self.w.structs and head not in self.w.bad_structs and "Default" in self.w.meta[head]["derives"] \
+                    and "%s::default" % head not in self.w.fns:
+                return Val("P", self.default_term(("struct", head), e), ("struct", head))
+        if segs == ["Vec", "new"] and not e.args:
+            return Val("P", "nil", expect if (expect is not None and expect[0] == "vec") else ("vec", None))
+        # tuple struct / enum variant
+        head = None
+        if len(segs) == 1:
+            head = segs[0]
+            if head == "Self" and self.self_ty is not None and self.self_ty[0] == "struct":
+                head = self.self_ty[1]
+            elif head in self.w.aliases:
+                try:
+                    t = self.w.resolve(("named", head), self.ctx)
+                    head = t[1] if t[0] == "struct" else head
+                except Unsupported:
+                    pass
+            if head in self.w.structs and self.w.meta[head]["tuple"] and head not in self.w.bad_structs:
+                fields = self.tr.literal_fields(head)
+                decl = self.w.structs[head]
+                if len(fields) != len(decl) or len(e.args) != len(decl):
+                    self.err(e, "tuple struct %s(..): %d fields, %d in the subset, %d given" % (head, len(decl), len(fields), len(e.args)))
+                self.structs_used.add(head)
+                vs = []
+                for (fn_, ft_), a in zip(fields, e.args):
+                    v = self.ex(a, env, ft_)
+                    self.same(ft_, v.ty, e, "field %s of %s" % (fn_, head))
+                    vs.append(v)
+                return self.seq(vs, lambda ns: Val("P", "(%s %s)" % (self.mk(head), " ".join(ns)), ("struct", head)))
+            return None
+        if len(segs) == 2:
+            en = segs[0]
+            if en == "Self" and self.self_ty is not None and self.self_ty[0] == "enum":
+                en = self.self_ty[1]
+            if en in self.w.enums and en not in self.w.bad_structs and any(v[0] == segs[1] for v in self.w.enums[en]):
+                return self.variant_value(en, segs[1], list(e.args), [], env, e)
+        return None
+
     def ex_call(self, e, env, expect):
         segs = e.path
+        if self.x and len(segs) > 2 and all(x[:1].islower() for x in segs[:-2]):
+            # `lef21::LefDecimal::from`: module qualifiers of a function path are dropped
+            segs = segs[-2:]
+            e = N("call", e.line, path=segs, args=e.args)
         if len(segs) == 2 and segs[1] == "try_from" and len(e.args) == 1:
             to = self.res(("named", segs[0]) if segs[0] not in INT_TAG else ("int", segs[0]), e)
             a = self.ex(e.args[0], env)
             if to[0] != "int" or a.ty is None or a.ty[0] != "int":
                 self.err(e, "try_from between %r and %r" % (a.ty, to))
             return Val(a.kind, a.term, ("tryres", a.ty, to))
+        if self.x:
+            r = self.ctor_call(e, env, expect)
+            if r is not None:
+                return r
         if len(segs) == 1:
             qn = segs[0]
         elif len(segs) == 2:
@@ -624,29 +1275,117 @@ class FnGen:
             if head == "Self":
                 if self.self_ty is None:
                     self.err(e, "`Self::` outside an impl")
-                head = type_key(self.fn.self_ty)
+                head = type_key(self.fn.self_ty) if not self.x else (self.self_ty[1] if self.self_ty[0] in ("struct", "enum", "foreign") else type_key(self.fn.self_ty))
+            elif self.x and head in self.w.aliases:
+                try:
+                    t = self.w.resolve(("named", head), self.ctx)
+                    if t[0] in ("struct", "enum", "foreign"):
+                        head = t[1]
+                except Unsupported:
+                    pass
             qn = "%s::%s" % (head, segs[1])
         else:
             self.err(e, "call path %s" % "::".join(segs))
+        if self.x and qn in self.w.overloads and len(self.w.overloads[qn]) > 1 and len(e.args) == 1:
+            # several `T::from(..)`-like functions: the one whose parameter has the type of the argument
+            a = self.ex(e.args[0], env)
+            hit = []
+            for f in self.w.overloads[qn]:
+                try:
+                    ps = self.tr.signature(f)["params"]
+                except Unsupported:
+                    continue
+                if len(ps) == 1 and ps[0][1] == a.ty:
+                    hit.append(f)
+            if len(hit) == 1:
+                return self.emit_call(hit[0], e.args, None, env, e, arg_vals=[a])
         return self.emit_call(self.callee(qn, e), e.args, None, env, e)
+
+    TRANSPARENT = ("iter", "iter_mut", "into_iter", "as_ref", "as_mut", "to_owned", "borrow", "borrow_mut", "deref")
 
     def ex_mcall(self, e, env, expect):
         name = e.name
+        if self.x and name == "fail" and e.recv.kind == "path" and e.recv.segs == ["self"]:
+            return self.fail_val()
+        if self.x and name == "assert" and e.recv.kind == "path" and e.recv.segs == ["self"] and len(e.args) == 2 and self.skippable(e.args[1]):
+            # ErrorHelper::assert(cond, msg): Ok(()) when cond holds, else the error
+            c = self.ex(e.args[0], env, ("bool",))
+            if c.ty != ("bool",):
+                self.err(e, "self.assert on a condition of type %r" % (c.ty,))
+            return self.seq([c], lambda ns: Val("M", "(if %s then %s else (k_fail xops))" % (ns[0], self.ret("tt")), ("res", ("unit",))))
+        if self.x and name == "try_into" and not e.args:
+            r = self.ex(e.recv, env)
+            to = expect[1] if (expect is not None and expect[0] == "res") else None
+            if to is None:
+                to = getattr(self, "hint_ty", None)
+            if r.ty is None or r.ty[0] != "int" or to is None or to[0] != "int":
+                self.err(e, ".try_into() from %r to %r (the target type must be known where it is written)" % (r.ty, to))
+            return Val(r.kind, r.term, ("tryres", r.ty, to))
         r = self.ex(e.recv, env)
         ty = r.ty
         if ty is None:
             self.err(e, "method call on a diverging expression")
         if name == "clone" and not e.args:
             return r
+        if self.x and name in self.TRANSPARENT and not e.args and ty[0] in ("vec", "opt", "struct", "enum", "foreign", "ptr"):
+            return r
         if ty[0] == "tryres":
             if name != "unwrap":
                 self.err(e, "only `.unwrap()` may follow try_from")
             return self.seq([r], lambda ns: Val("M", "(i_try_from ops %s %s %s)" % (tag(ty[1]), tag(ty[2]), ns[0]), ty[2]))
+        if self.x and ty[0] == "res":
+            if name in ("unwrap", "expect"):
+                return Val("M", "(k_unwrap xops %s)" % r.term, ty[1])
+            self.err(e, "Result method .%s is outside the subset" % name)
+        if self.x and ty[0] == "ptr":
+            if name in ("read", "write") and not e.args:
+                key = type_key(ty[1])
+                self.tr.use_read(key, ty[1], self)
+                return self.seq([r], lambda ns: Val("M", "(ext_read_%s %s)" % (key, ns[0]), ("res", ty[1])))
+            self.err(e, "Ptr method .%s is outside the subset" % name)
+        if self.x and ty[0] == "opt":
+            if name in ("is_some", "is_none") and not e.args:
+                tf = ("true", "false") if name == "is_some" else ("false", "true")
+                return self.seq([r], lambda ns: Val("P", "(match %s with Some _ => %s | None => %s end)" % (ns[0], tf[0], tf[1]), ("bool",)))
+            if name in ("unwrap", "expect"):
+                return self.seq([r], lambda ns: Val("M", "(match %s with Some x__ => %s | None => (k_panic ops) end)" % (ns[0], self.ret("x__")), ty[1]))
+            if name == "ok_or" and len(e.args) == 1:
+                return self.seq([r], lambda ns: Val("M", "(match %s with Some x__ => %s | None => (k_fail xops) end)" % (ns[0], self.ret("x__")), ("res", ty[1])))
+            if name == "unwrap_or" and len(e.args) == 1:
+                d = self.ex(e.args[0], env, ty[1])
+                self.same(ty[1], d.ty, e, ".unwrap_or")
+                return self.seq([r, d], lambda ns: Val("P", "(match %s with Some x__ => x__ | None => %s end)" % (ns[0], ns[1]), unify(ty[1], d.ty)))
+            if name == "map_or" and len(e.args) == 2 and e.args[1].kind == "closure" and len(e.args[1].params) == 1 \
+                    and e.args[1].params[0].kind in ("pvar", "pwild"):
+                d = self.ex(e.args[0], env, expect)
+                cp = e.args[1].params[0]
+                env2 = dict(env)
+                if cp.kind == "pvar":
+                    env2[cp.name] = ty[1]
+                b = self.ex(e.args[1].body, env2, d.ty)
+                rt = self.same(d.ty, b.ty, e, ".map_or")
+                pn = mangle(cp.name) if cp.kind == "pvar" else "_"
+                def build(ns):
+                    if b.kind == "P":
+                        return Val("P", "(match %s with Some %s => %s | None => %s end)" % (ns[0], pn, b.term, ns[1]), rt)
+                    return Val("M", "(match %s with Some %s => %s | None => %s end)" % (ns[0], pn, b.term, self.ret(ns[1])), rt)
+                return self.seq([r, d], build)
+            self.err(e, "Option method .%s is outside the subset" % name)
         if ty[0] == "int":
             if name in ("min", "max") and len(e.args) == 1:
                 a = self.ex(e.args[0], env, ty)
                 self.same(ty, a.ty, e, "." + name)
                 return self.seq([r, a], lambda ns: Val("P", "(i_%s ops %s %s)" % (name, ns[0], ns[1]), ty))
+            if self.x and name in ("add", "sub", "mul", "div", "rem") and len(e.args) == 1:
+                # the operator methods of std::ops on integers: `a.rem(b)` is `a % b`
+                a = self.ex(e.args[0], env, ty)
+                self.same(ty, a.ty, e, "." + name)
+                fop = self.arith({"add": "+", "sub": "-", "mul": "*", "div": "/", "rem": "%"}[name], ty, e)
+                return self.seq([r, a], lambda ns: Val("M", fop(ns[0], ns[1]), ty))
+            if self.x and name == "into" and not e.args and expect is not None and expect[0] == "int":
+                if expect == ty:
+                    return r
+                return self.seq([r], lambda ns: Val("M", "(i_cast ops %s %s %s)" % (tag(ty), tag(expect), ns[0]), expect))
             self.err(e, "integer method .%s is outside the subset" % name)
         if ty == ("f64",):
             if name in ("round", "to_radians", "sin", "cos") and not e.args:
@@ -663,8 +1402,50 @@ class FnGen:
             self.err(e, "f64 method .%s is outside the subset" % name)
         if ty[0] == "vec" and name == "len" and not e.args:
             return self.seq([r], lambda ns: Val("P", "(v_len ops %s)" % ns[0], ("int", "usize")))
-        if ty[0] in ("struct", "vec"):
-            key = ty[1] if ty[0] == "struct" else type_key(("vec", ("named", ty[1][1]))) if ty[1][0] == "struct" else None
+        if self.x and ty[0] == "vec":
+            if name == "is_empty" and not e.args:
+                return self.seq([r], lambda ns: Val("P", "(match %s with nil => true | cons _ _ => false end)" % ns[0], ("bool",)))
+            if name in ("last", "first") and not e.args:
+                return self.seq([r], lambda ns: Val("P", "(k_%s %s)" % (name, ns[0]), ("opt", ty[1])))
+            if name == "position" and len(e.args) == 1 and e.args[0].kind == "closure" and len(e.args[0].params) == 1 \
+                    and e.args[0].params[0].kind == "pvar":
+                cp = e.args[0].params[0]
+                env2 = dict(env); env2[cp.name] = ty[1]
+                b = self.ex(e.args[0].body, env2, ("bool",))
+                if b.ty != ("bool",):
+                    self.err(e, "the closure of .position(..) must be a boolean expression")
+                if b.kind == "P":
+                    return self.seq([r], lambda ns: Val("P", "(k_position ops (fun %s => %s) %s)" % (mangle(cp.name), b.term, ns[0]), ("opt", ("int", "usize"))))
+                # a closure with effects (arithmetic that can overflow, calls): evaluated element by element, in order
+                return self.seq([r], lambda ns: Val("M", "(k_position_m ops (fun %s => %s) %s)" % (mangle(cp.name), b.term, ns[0]), ("opt", ("int", "usize"))))
+            if name == "map" and len(e.args) == 1 and e.args[0].kind == "closure" and len(e.args[0].params) == 1 \
+                    and e.args[0].params[0].kind == "pvar":
+                # `v.iter().map(|x| e)` with a closure without effects: the list of the values
+                cp = e.args[0].params[0]
+                env2 = dict(env); env2[cp.name] = ty[1]
+                b = self.ex(e.args[0].body, env2)
+                if b.kind != "P" or b.ty is None or b.ty[0] in ("res", "tryres"):
+                    self.err(e, "the closure of .map(..) must be an expression without effects")
+                return self.seq([r], lambda ns: Val("P", "(List.map (fun %s => %s) %s)" % (mangle(cp.name), b.term, ns[0]), ("vec", b.ty)))
+            if name == "sum" and not e.args and ty[1] is not None and ty[1][0] == "struct" and "Sum" in self.w.meta[ty[1][1]]["derives"]:
+                # derive_more `Sum`: the fold of `+` from the all-zero value, left to right
+                f = self.tr.derived(ty[1][1], "add") or (self.w.overloads.get("%s::add" % ty[1][1]) or [None])[0]
+                if f is None:
+                    self.err(e, ".sum() of %s: no `+`" % ty[1][1])
+                self.tr.need_fn(f)
+                zero = self.default_term(ty[1], e) if "Default" in self.w.meta[ty[1][1]]["derives"] else None
+                if zero is None:
+                    self.err(e, ".sum() of %s: no Default" % ty[1][1])
+                return self.seq([r], lambda ns: Val("M", "(k_sum ops (fun a__ b__ => g_%s a__ b__) %s %s)" % (self.tr.uname(f).replace("::", "_"), zero, ns[0]), ty[1]))
+            if name == "enumerate" and not e.args:
+                return self.seq([r], lambda ns: Val("P", "(k_enumerate ops %s)" % ns[0], ("vec", ("tup", (("int", "usize"), ty[1])))))
+        if self.x and name == "into" and not e.args and (expect is None or expect == ty):
+            return r
+        if ty[0] in ("struct", "vec") or (self.x and ty[0] in ("enum", "foreign")):
+            if ty[0] == "vec":
+                key = type_key(("vec", ("named", ty[1][1]))) if ty[1][0] == "struct" else None
+            else:
+                key = ty[1]
             if key is None:
                 self.err(e, "method .%s on %r" % (name, ty))
             return self.emit_call(self.callee("%s::%s" % (key, name), e), e.args, r, env, e)
@@ -676,13 +1457,34 @@ class FnGen:
             return K.end(None, env)
         s, rest = lst[0], lst[1:]
         k = s.kind
+        if k == "let" and self.x and s.init.kind == "refmut" and s.pat.kind == "pvar" and s.ty is None and lvalue_root(s.init) is not None:
+            # `let r = &mut place;`: r is the place (reads go to it, assignments through r are assignments to it)
+            place = s.init.e
+            moved = set(assigned_roots(rest, [])) & (names_used(place, set()) - {lvalue_root(place)})
+            if moved:
+                self.err(s, "the place behind `&mut` mentions %s, assigned while the reference lives" % sorted(moved))
+            v = self.ex(place, env)
+            if v.ty is None:
+                self.err(s, "`&mut` of a diverging expression")
+            env2 = dict(env); env2[s.pat.name] = ("alias", place, v.ty)
+            return self.stmts(rest, env2, K)
         if k == "let":
             expect = self.res(s.ty, s) if s.ty is not None else None
+            if self.x and expect is None and s.pat.kind == "pvar":
+                # `let x = e.try_into()?;`: the target type is that of the parameter x is passed to
+                self.hint_ty = self.infer_from_use(s.pat.name, rest, env)
             v = self.ex(s.init, env, expect)
+            self.hint_ty = None
             if expect is not None:
                 self.same(expect, v.ty, s, "let")
             if v.ty is None:
+                if self.x:
+                    return v       # `let x = <something that always fails / panics>`: nothing after it runs
                 self.err(s, "let bound to a diverging expression")
+            if v.ty[0] == "res":
+                self.err(s, "a `let` bound to a Result (it must be consumed where it is produced: `?`, `.unwrap()`)")
+            if self.x and v.ty[0] in ("opt", "vec") and v.ty[1] is None:
+                self.err(s, "the type of this `let` cannot be determined here (annotate it)")
             if v.ty[0] == "tryres":
                 self.err(s, "a try_from result must be unwrapped at once")
             return self.let_(s.pat, v, lambda env2: self.stmts(rest, env2, K), env, s)
@@ -697,8 +1499,20 @@ class FnGen:
             return self.for_(s, rest, env, K)
         if k == "exprstmt":
             e = s.e
+            if self.x and e.kind == "mcall" and place_text(e.recv) in self.unit.get("skip_recv", ()):
+                # the error-context stack only decorates messages
+                if not rest and not s.semi:
+                    return K.end(None, env)
+                return self.stmts(rest, env, K)
+            if self.x and e.kind == "mcall" and e.name in MUTATORS and lvalue_root(e.recv) is not None:
+                if (e.name == "push" and len(e.args) != 1) or (e.name == "pop" and e.args) or (e.name == "insert" and len(e.args) != 2):
+                    self.err(e, "arguments of .%s" % e.name)
+                a = N("assign", e.line, lhs=e.recv, op=e.name, rhs=(e.args[0] if len(e.args) == 1 else list(e.args) if e.args else None))
+                return self.stmts([a] + rest, env, K)
             if e.kind == "if":
                 return self.if_(e, rest if (rest or s.semi) else None, env, K)
+            if e.kind == "match":
+                return self.match_(e, rest if (rest or s.semi) else None, env, K)
             if e.kind == "block":
                 inner = list(e.stmts)
                 self.no_capture(inner, rest, s)
@@ -711,6 +1525,11 @@ class FnGen:
                 v = self.ex(e, env, K.val_ty)
                 return K.end(v, env)
             v = self.ex(e, env)
+            if self.x:
+                if v.ty is None and v.kind == "M":
+                    return v       # a panic / an error: nothing after it runs
+                if v.ty is not None and v.ty[0] == "res":
+                    self.err(s, "a Result that is not used")
             r = self.stmts(rest, env, K)
             if v.kind == "P":
                 return r
@@ -747,6 +1566,10 @@ class FnGen:
             then = self.as_stmts(then)
         self.no_capture(then, rest, e)
         self.no_capture(els, rest, e)
+        if getattr(e, "letpat", None) is not None:
+            l2 = e.line
+            arms = [(e.letpat, None, e.then), (N("pwild", l2), None, e.els if e.els is not None else N("block", l2, stmts=[]))]
+            return self.match_(N("match", l2, scrut=e.cond, arms=arms), (rest if not tail else None), env, K)
         if e.letvar is not None:
             c = self.ex(e.cond, env)
             if c.ty is None or c.ty[0] != "opt":
@@ -774,6 +1597,245 @@ class FnGen:
             return Val("M", "(if %s then %s else %s)" % (ns[0], self.toM(a), self.toM(b)), ty)
         return self.seq([c], build)
 
+    def infer_from_use(self, name, rest, env):
+        """the type of the parameter / field that the local `name` is passed to in `rest` (first use), or None"""
+        found = []
+        def is_me(a):
+            return a.kind == "path" and a.segs == [name]
+        def walk(n):
+            if found:
+                return
+            if isinstance(n, N):
+                try:
+                    if n.kind == "call" and any(is_me(a) for a in n.args):
+                        segs = n.path
+                        qn = None
+                        if len(segs) == 1:
+                            qn = segs[0]
+                        elif len(segs) == 2:
+                            h = segs[0]
+                            if h == "Self" and self.self_ty is not None:
+                                h = self.self_ty[1]
+                            qn = "%s::%s" % (h, segs[1])
+                        if qn in self.w.fns and not self.w.fns[qn].clash:
+                            ps = [p_ for p_ in self.tr.signature(self.w.fns[qn])["params"] if p_[0] != "self"]
+                            for a, (pn, pt) in zip(n.args, ps):
+                                if is_me(a):
+                                    found.append(pt)
+                                    return
+                    if n.kind == "structlit" and n.name in self.w.structs:
+                        kept = dict(self.tr.literal_fields(n.name))
+                        for f, x in n.fields:
+                            if is_me(x) and f in kept:
+                                found.append(kept[f])
+                                return
+                except Unsupported:
+                    pass
+                for k_, v_ in n.__dict__.items():
+                    if k_ not in ("kind", "line"):
+                        walk(v_)
+            elif isinstance(n, (list, tuple)):
+                for x in n:
+                    walk(x)
+        walk(rest)
+        return found[0] if found else None
+
+    def ctors_of(self, ty):
+        if ty is None:
+            return None
+        if ty == ("bool",):
+            return [("true", []), ("false", [])]
+        if ty[0] == "opt":
+            return [("None", []), ("Some", [ty[1]])]
+        if ty[0] == "enum":
+            return [(v[0], list(self.tr.variant(ty[1], v[0], None, self)[1])) for v in self.w.enums[ty[1]]]
+        if ty[0] == "tup":
+            return [("tup", list(ty[1]))]
+        if ty[0] == "struct":
+            return [("mk", [ft for _, ft in self.fields_of(ty[1])])]
+        return None
+
+    def pat(self, p, ty, env2, node, top=False):
+        """(Gallina pattern, normalised pattern) of the Rust pattern p at the type ty; binds its variables in env2"""
+        k = p.kind
+        if k == "pwild":
+            return "_", ("w",)
+        if k == "pvar":
+            env2[p.name] = ty
+            return mangle(p.name), ("w",)
+        if k == "por":
+            parts, norms, first = [], [], None
+            for alt in p.alts:
+                e3 = {}
+                c, n = self.pat(alt, ty, e3, node)
+                if first is None:
+                    first = e3
+                elif e3 != first:
+                    self.err(node, "the alternatives of an or-pattern bind different names / types")
+                parts.append(c); norms.append(n)
+            env2.update(first)
+            txt = " | ".join(parts)
+            return (txt if top else "(" + txt + ")"), ("o", norms)
+        if ty is None:
+            self.err(node, "pattern against a value of unknown type")
+        def subs(pats, tys, rest_ok):
+            if len(pats) != len(tys):
+                if not (rest_ok and len(pats) <= len(tys)):
+                    self.err(node, "pattern with %d components against %d" % (len(pats), len(tys)))
+                pats = list(pats) + [N("pwild", p.line)] * (len(tys) - len(pats))
+            cs, ns = [], []
+            for q, t in zip(pats, tys):
+                if t == ("opaque",) and q.kind not in ("pwild", "pvar"):
+                    self.err(node, "pattern inside a component whose type is outside the subset")
+                c, n = self.pat(q, t, env2, node)
+                cs.append(c); ns.append(n)
+            return cs, ns
+        if k == "ptup":
+            if ty[0] != "tup":
+                self.err(node, "tuple pattern against the type %r" % (ty,))
+            cs, ns = subs(p.pats, list(ty[1]), False)
+            return "(" + ", ".join(cs) + ")", ("c", "tup", ns)
+        if k == "plit":
+            if isinstance(p.val, bool) and ty == ("bool",):
+                return ("true" if p.val else "false"), ("c", "true" if p.val else "false", [])
+            self.err(node, "literal pattern at the type %r (only bool is in the subset)" % (ty,))
+        segs = p.segs
+        if ty[0] == "opt":
+            if k == "ppath" and segs == ["None"]:
+                return "None", ("c", "None", [])
+            if k == "pts" and segs == ["Some"] and len(p.pats) == 1:
+                cs, ns = subs(p.pats, [ty[1]], False)
+                return "(Some %s)" % cs[0], ("c", "Some", ns)
+            self.err(node, "pattern %s against an Option" % "::".join(segs))
+        if ty[0] == "enum":
+            en = ty[1]
+            head = segs[-2] if len(segs) >= 2 else None
+            if head is not None and head != "Self" and head != en:
+                al = None
+                try:
+                    al = self.w.resolve(("named", head), self.ctx)
+                except Unsupported:
+                    pass
+                if al != ty:
+                    self.err(node, "pattern %s against the enum %s" % ("::".join(segs), en))
+            if head is None:
+                self.err(node, "pattern %s against the enum %s (write the variant with its enum)" % (segs[0], en))
+            vkind, tys, names = self.tr.variant(en, segs[-1], node, self)
+            if k == "ppath":
+                if vkind != "unit":
+                    self.err(node, "%s::%s has fields" % (en, segs[-1]))
+                return "g%s_%s" % (en, segs[-1]), ("c", segs[-1], [])
+            if k == "pts":
+                if vkind != "tuple":
+                    self.err(node, "%s::%s is not a tuple variant" % (en, segs[-1]))
+                cs, ns = subs(p.pats, tys, p.rest)
+                return "(g%s_%s %s)" % (en, segs[-1], " ".join(cs)), ("c", segs[-1], ns)
+            if k == "pstruct":
+                if vkind != "struct":
+                    self.err(node, "%s::%s is not a struct variant" % (en, segs[-1]))
+                given = dict(p.fields)
+                if set(given) - set(names) or (not p.rest and set(given) != set(names)):
+                    self.err(node, "fields of the pattern %s::%s" % (en, segs[-1]))
+                cs, ns = subs([given.get(f, N("pwild", p.line)) for f in names], tys, False)
+                return "(g%s_%s %s)" % (en, segs[-1], " ".join(cs)) if cs else "g%s_%s" % (en, segs[-1]), ("c", segs[-1], ns)
+        if ty[0] == "struct":
+            sn = ty[1]
+            kept = self.fields_of(sn)
+            if k == "pts" and self.w.meta[sn]["tuple"] and len(kept) == len(self.w.structs[sn]):
+                cs, ns = subs(p.pats, [ft for _, ft in kept], p.rest)
+                return "(mk_g%s %s)" % (sn, " ".join(cs)), ("c", "mk", ns)
+            if k == "pstruct":
+                given = dict(p.fields)
+                decl = [f for f, _ in self.w.structs[sn]]
+                if set(given) - set(decl) or (not p.rest and set(given) != set(decl)):
+                    self.err(node, "fields of the pattern %s { .. }" % sn)
+                for f in given:
+                    if f not in dict(kept) and given[f].kind != "pwild":
+                        self.err(node, "pattern on the field %s of %s, whose type is outside the subset" % (f, sn))
+                    self.tr.use_field(sn, f)
+                cs, ns = subs([given.get(f, N("pwild", p.line)) for f, _ in kept], [ft for _, ft in kept], False)
+                return "(mk_g%s%s)" % (sn, "".join(" " + c for c in cs)), ("c", "mk", ns)
+        self.err(node, "pattern of kind %s against the type %r" % (k, ty))
+
+    def match_(self, e, rest, env, K, value=False):
+        """`match` whose continuation is `rest` (None: the match is the value of the block / of the expression)"""
+        tail = rest is None
+        rest = rest or []
+        sc = self.ex(e.scrut, env)
+        if sc.ty is None:
+            self.err(e, "match on a diverging expression")
+        if sc.ty[0] in ("res", "tryres"):
+            self.err(e, "match on a Result is outside the subset (use `?`)")
+        used_after = names_used(rest, set())
+        arms = []
+        for pat, guard, body in e.arms:
+            stm = list(body.stmts) if body.kind == "block" else [N("exprstmt", body.line, e=body, semi=False)]
+            if not tail:
+                stm = self.as_stmts(stm)
+            self.no_capture(stm, rest, e)
+            clash = pat_names(pat, set()) & used_after
+            if clash and rest:
+                self.err(e, "the names %s are bound by a pattern and used after the match" % sorted(clash))
+            arms.append((pat, guard, stm))
+        def build(ns):
+            st = ns[0]
+            prefix = None
+            if not st.replace("_", "a").isalnum() and any(g is not None for _, g, _ in arms):
+                self.tmp += 1
+                prefix, st = ("m__%d" % self.tmp, st), "m__%d" % self.tmp
+            comp = []
+            for pat, guard, stm in arms:
+                env2 = dict(env)
+                cp, norm = self.pat(pat, sc.ty, env2, e, top=True)
+                g = None
+                if guard is not None:
+                    g = self.ex(guard, env2, ("bool",))
+                    if g.ty != ("bool",):
+                        self.err(e, "guard of type %r" % (g.ty,))
+                v = self.stmts(stm + rest, env2, K)
+                comp.append((cp, norm, g, v))
+            ty = None
+            for _, _, _, v in comp:
+                ty = self.same(ty, v.ty, e, "arms of match")
+            pure = all(v.kind == "P" for _, _, _, v in comp) and all(g is None or g.kind == "P" for _, _, g, _ in comp)
+            body = (lambda v: v.term) if pure else self.toM
+            memo = {}
+            tys = [sc.ty]
+            def gen(i):
+                if i in memo:
+                    return memo[i]
+                if i >= len(comp):
+                    if pure:
+                        self.err(e, "this match needs a fall-through that cannot be written for a pure value (guards on every arm)")
+                    memo[i] = "(k_panic ops)"
+                    return memo[i]
+                rows, out, j = [], [], i
+                while j < len(comp) and comp[j][2] is None:
+                    if useful(rows, [comp[j][1]], tys, self.ctors_of):
+                        out.append("| %s => %s" % (comp[j][0], body(comp[j][3])))
+                        rows.append([comp[j][1]])
+                    j += 1
+                if j < len(comp):
+                    cp, norm, g, v = comp[j]
+                    if useful(rows, [norm], tys, self.ctors_of):
+                        if g.kind == "P":
+                            out.append("| %s => (if %s then %s else %s)" % (cp, g.term, body(v), gen(j + 1)))
+                        else:
+                            out.append("| %s => (k_bind ops %s (fun g__ => if g__ then %s else %s))" % (cp, g.term, body(v), gen(j + 1)))
+                        if useful(rows + [[norm]], [("w",)], tys, self.ctors_of):
+                            out.append("| _ => %s" % gen(j + 1))
+                elif useful(rows, [("w",)], tys, self.ctors_of):
+                    if pure:
+                        self.err(e, "the arms of this match are not exhaustive as read by the translator")
+                    out.append("| _ => (k_panic ops)")
+                memo[i] = "(match %s with %s end)" % (st, " ".join(out))
+                return memo[i]
+            term = gen(0)
+            if prefix is not None:
+                term = "(let %s := %s in %s)" % (prefix[0], prefix[1], term)
+            return Val("P" if pure else "M", term, ty)
+        return self.seq([sc], build)
+
     def update(self, lhs, newterm, env):
         """(root name, term for the new value of the root) for the assignment of newterm to the place lhs"""
         if lhs.kind == "path" and len(lhs.segs) == 1:
@@ -792,7 +1854,8 @@ class FnGen:
             if base.ty[0] != "struct":
                 self.err(lhs, "field assignment on %r" % (base.ty,))
             sn = base.ty[1]
-            parts = [newterm if f == lhs.name else "(g%s_%s %s)" % (sn, f, base.term) for f, _ in self.w.structs[sn]]
+            self.tr.use_field(sn, lhs.name)
+            parts = [newterm if f == lhs.name else "(g%s_%s %s)" % (sn, f, base.term) for f, _ in self.fields_of(sn)]
             return self.update(lhs.e, "(mk_g%s %s)" % (sn, " ".join(parts)), env)
         self.err(lhs, "assignment to this kind of place is outside the subset")
 
@@ -809,6 +1872,8 @@ class FnGen:
             v = self.ex(s.rhs, env, expect)
             self.same(expect, v.ty, s, "tuple assignment")
             return self.let_(N("ptup", s.line, pats=pats), v, lambda env2: self.stmts(rest, env2, K), env, s)
+        if self.x:
+            return self.assign_x(s, rest, env, K)
         cur = self.ex(s.lhs, env)
         if cur.kind != "P":
             self.err(s, "assignment to an effectful place")
@@ -817,10 +1882,27 @@ class FnGen:
             self.err(s, "assignment to something that is not rooted at a local")
         if root == "self":
             self.mut_self = True
+        if s.op in MUTATORS:
+            if cur.ty is None or cur.ty[0] != "vec":
+                self.err(s, ".%s on a value of type %r" % (s.op, cur.ty))
+            if s.op == "push":
+                rhs = self.ex(s.rhs, env, cur.ty[1])
+                self.same(cur.ty[1], rhs.ty, s, ".push")
+                newv = self.seq([rhs], lambda ns: Val("P", "(app %s (cons %s nil))" % (cur.term, ns[0]), cur.ty))
+            else:
+                newv = Val("P", "(k_pop %s)" % cur.term, cur.ty)
+            def build_m(ns):
+                rname, upd = self.update(s.lhs, ns[0], env)
+                r = self.stmts(rest, env, K)
+                return Val(r.kind, "(let %s := %s in %s)" % (mangle(rname), upd, r.term), r.ty)
+            return self.seq([newv], build_m)
         rhs = self.ex(s.rhs, env, cur.ty)
         self.same(cur.ty, rhs.ty, s, "assignment")
         if s.op == "=":
             newv = rhs
+        elif self.x and cur.ty is not None and cur.ty[0] in ("struct", "enum", "foreign"):
+            f, _ = self.pick_overload(cur.ty[1], OP_METHOD[s.op[0]], s.rhs, env, s)
+            newv = self.emit_call(f, [s.rhs], cur, env, s, arg_vals=[rhs])
         else:
             f = self.arith(s.op[0], cur.ty, s)
             newv = self.seq([rhs], lambda ns: Val("M", f(cur.term, ns[0]), cur.ty))
@@ -830,8 +1912,95 @@ class FnGen:
             return Val(r.kind, "(let %s := %s in %s)" % (mangle(rname), upd, r.term), r.ty)
         return self.seq([newv], build)
 
+    def subst_root(self, lhs, place):
+        if lhs.kind == "path":
+            return place
+        if lhs.kind == "refmut":
+            return self.subst_root(lhs.e, place)
+        n = N(lhs.kind, lhs.line, **{k_: v_ for k_, v_ in lhs.__dict__.items() if k_ not in ("kind", "line")})
+        n.e = self.subst_root(lhs.e, place)
+        return n
+
+    def upd(self, lhs, newterm, env):
+        """the new value of the ROOT local of the place lhs when newterm is stored in lhs (second part of the subset:
+        through fields, [T; 2] cells and Vec cells; a Vec cell is written back with v_set)"""
+        if lhs.kind == "refmut":
+            return self.upd(lhs.e, newterm, env)
+        if lhs.kind == "path" and len(lhs.segs) == 1:
+            return Val("P", newterm, env[lhs.segs[0]])
+        if lhs.kind == "field":
+            base = self.ex(lhs.e, env)
+            if base.ty is None or base.ty[0] != "struct":
+                self.err(lhs, "field assignment on %r" % (base.ty,))
+            sn = base.ty[1]
+            self.tr.use_field(sn, lhs.name)
+            if lhs.name not in dict(self.fields_of(sn)):
+                self.err(lhs, "assignment to the field %s of %s, whose type is outside the subset" % (lhs.name, sn))
+            def build(ns):
+                parts = [newterm if f == lhs.name else "(g%s_%s %s)" % (sn, f, ns[0]) for f, _ in self.fields_of(sn)]
+                return self.upd(lhs.e, "(%s %s)" % (self.mk(sn), " ".join(parts)), env)
+            return self.seq([base], build)
+        if lhs.kind == "index":
+            base = self.ex(lhs.e, env)
+            if base.ty is not None and base.ty[0] == "arr":
+                if lhs.idx.kind != "int" or lhs.idx.val not in (0, 1) or base.kind != "P":
+                    self.err(lhs, "assignment to an index other than the literal 0 or 1 of a [T; 2]")
+                nb = "(%s, (snd %s))" % (newterm, base.term) if lhs.idx.val == 0 else "((fst %s), %s)" % (base.term, newterm)
+                return self.upd(lhs.e, nb, env)
+            if base.ty is not None and base.ty[0] == "vec":
+                i = self.ex(lhs.idx, env, ("int", "usize"))
+                if i.ty != ("int", "usize"):
+                    self.err(lhs, "Vec index of type %r" % (i.ty,))
+                setv = self.seq([base, i], lambda ns: Val("M", "(v_set xops %s %s %s)" % (ns[0], ns[1], newterm), base.ty))
+                return self.seq([setv], lambda ns: self.upd(lhs.e, ns[0], env))
+        self.err(lhs, "assignment to this kind of place is outside the subset")
+
+    def assign_x(self, s, rest, env, K):
+        lhs = s.lhs
+        root = lvalue_root(lhs)
+        if root is None or root not in env:
+            self.err(s, "assignment to something that is not rooted at a local")
+        if env[root] is not None and env[root][0] == "alias":
+            lhs = self.subst_root(lhs, env[root][1])
+            root = lvalue_root(lhs)
+        if root == "self":
+            self.mut_self = True
+        cur = self.ex(lhs, env)
+        if cur.ty is None:
+            self.err(s, "assignment to a diverging place")
+        if s.op in MUTATORS:
+            if cur.ty[0] != "vec" or cur.kind != "P":
+                self.err(s, ".%s on a value of type %r" % (s.op, cur.ty))
+            if s.op == "push":
+                rhs = self.ex(s.rhs, env, cur.ty[1])
+                self.same(cur.ty[1], rhs.ty, s, ".push")
+                newv = self.seq([rhs], lambda ns: Val("P", "(app %s (cons %s nil))" % (cur.term, ns[0]), cur.ty))
+            elif s.op == "insert":
+                i = self.ex(s.rhs[0], env, ("int", "usize"))
+                xv = self.ex(s.rhs[1], env, cur.ty[1])
+                self.same(cur.ty[1], xv.ty, s, ".insert")
+                if i.ty != ("int", "usize"):
+                    self.err(s, ".insert at an index of type %r" % (i.ty,))
+                newv = self.seq([i, xv], lambda ns: Val("M", "(v_insert xops %s %s %s)" % (cur.term, ns[0], ns[1]), cur.ty))
+            else:
+                newv = Val("P", "(k_pop %s)" % cur.term, cur.ty)
+        else:
+            rhs = self.ex(s.rhs, env, cur.ty)
+            self.same(cur.ty, rhs.ty, s, "assignment")
+            if s.op == "=":
+                newv = rhs
+            elif cur.ty[0] in ("struct", "enum", "foreign"):
+                f, _ = self.pick_overload(cur.ty[1], OP_METHOD[s.op[0]], s.rhs, env, s)
+                newv = self.emit_call(f, [s.rhs], cur, env, s, arg_vals=[rhs])
+            else:
+                fop = self.arith(s.op[0], cur.ty, s)
+                newv = self.seq([cur, rhs], lambda ns: Val("M", fop(ns[0], ns[1]), cur.ty))
+        newroot = self.seq([newv], lambda ns: self.upd(lhs, ns[0], env))
+        return self.let_(N("pvar", s.line, name=root), newroot, lambda env2: self.stmts(rest, env2, K), env, s)
+
     def for_(self, s, rest, env, K):
         self.nloop += 1
+        nloop = self.nloop
         body = self.as_stmts(list(s.body.stmts))
         # the loop variable
         if s.hi is not None:
@@ -848,6 +2017,11 @@ class FnGen:
             if coll.ty is None or coll.ty[0] != "vec":
                 self.err(s, "`for` over a value of type %r (a range or a Vec is in the subset)" % (coll.ty,))
             vty = coll.ty[1]
+            if s.pat.kind == "ptup" and self.x:
+                # `for (i, x) in ..`: the loop variable is a fresh name, taken apart at the start of the body
+                it = "it__%d" % nloop
+                body = [N("let", s.line, pat=s.pat, ty=None, init=N("path", s.line, segs=[it]))] + body
+                s = N("for", s.line, pat=N("pvar", s.line, name=it), lo=s.lo, hi=s.hi, body=s.body)
             if s.pat.kind != "pvar":
                 self.err(s, "loop pattern over a Vec must be a name")
         lv = s.pat.name
@@ -861,24 +2035,33 @@ class FnGen:
         if lv in names_used(rest, set()) and lv in env:
             self.err(s, "the loop variable %s shadows a name used after the loop" % lv)
         used = names_used(body, set())
-        free = [n for n in env if n in used and n not in state and n != lv]
+        for n in env:
+            if n in used and env[n] is not None and env[n][0] == "alias" and n != lv and n not in bound_in:
+                self.err(s, "the `&mut` alias %s is used inside a loop" % n)
+        free = [n for n in env if n in used and n not in state and n != lv and not (env[n] is not None and env[n][0] == "alias")]
         st_ty = [env[n] for n in state]
         def tup(names):
             return "tt" if not names else "(" + ", ".join(mangle(n) for n in names) + ")" if len(names) > 1 else mangle(names[0])
         s_cty = "unit" if not state else cty(("tup", tuple(st_ty))) if len(state) > 1 else cty(st_ty[0])
-        r_cty = cty(K.ret_ty) if K.ret_ty is not None else "unit"
+        plain_ret = Translator.plain(K.ret_ty) if self.x else K.ret_ty
+        if self.x and "self" in state and self.mut_self_sig and has_kind(body, "return"):
+            self.err(s, "`return` inside a loop that assigns to self, in a `&mut self` method")
+        r_cty = cty(plain_ret) if plain_ret is not None else "unit"
         benv = dict(env); benv[lv] = vty
         kl = KLoop(self, K.ret_ty, state)
         b = self.stmts(body, benv, kl)
-        lname = "g_%s_loop%d" % (self.fn.name.replace("::", "_"), self.nloop)
+        lname = "g_%s_loop%d" % (self.tr.uname(self.fn).replace("::", "_"), nloop)
         params = "".join(" (%s : %s)" % (mangle(n), cty(env[n])) for n in free)
         unpack = "" if not state else ("let %s%s := st__ in " % ("'" if len(state) > 1 else "", tup(state)))
         self.aux.append("(* body of loop %d of %s (line %d): loop variable %s, state %s *)\nDefinition %s%s (%s : %s) (st__ : %s) : M (ctrl %s %s) :=\n  %s%s.\n"
-                        % (self.nloop, self.fn.name, s.line, lv, tup(state), lname, params, mangle(lv), cty(vty), s_cty, r_cty, s_cty, unpack, self.toM(b)))
+                        % (nloop, self.fn.name, s.line, lv, tup(state), lname, params, mangle(lv), cty(vty), s_cty, r_cty, s_cty, unpack, self.toM(b)))
         bodyf = "(fun %s st__ => %s%s %s st__)" % (mangle(lv), lname, "".join(" " + mangle(n) for n in free), mangle(lv))
         after_env = dict(env)
         after = self.stmts(rest, after_env, K)
-        brk = K.ret(Val("P", "v__", K.ret_ty), env)
+        if self.x and K.ret_ty is not None and K.ret_ty[0] == "res":
+            brk = K.ret(Val("M", "(k_ret ops v__)", K.ret_ty), env)
+        else:
+            brk = K.ret(Val("P", "v__", K.ret_ty), env)
         ty = after.ty if after.ty is not None else brk.ty
         def build(ns):
             if s.hi is not None:
@@ -903,6 +2086,8 @@ class KValue:
             return Val("P", "tt", ("unit",))
         return v
     def ret(self, v, env):
+        if v is not None and v.fail:
+            return Val("M", v.term, None, fail=True)     # `return Err(..)`: the error leaves the function from anywhere
         raise Unsupported("%s: in fn %s: `return` inside a block that is used as a value" % (self.g.fn.fname, self.g.fn.name))
 
 class KFn:
@@ -914,6 +2099,11 @@ class KFn:
             if self.g.mut_self_sig:
                 return Val("P", "self", env["self"])
             return Val("P", "tt", ("unit",))
+        if getattr(self.g, "mut_res_sig", False):
+            # `&mut self` .. -> Result<()>: `Ok(())` gives the new self, an error stays the error
+            if v.fail:
+                return Val("M", v.term, ("res", env["self"]), fail=True)
+            return Val("M", "(k_bind ops %s (fun _ => (k_ret ops self)))" % self.g.toM(v), ("res", env["self"]))
         return v
     def ret(self, v, env):
         return self.end(v, env)
@@ -931,25 +2121,147 @@ class KLoop:
     def ret(self, v, env):
         if v is None:
             return Val("M", "(k_ret ops (Brk tt))", ("ctrl",))
-        return self.g.seq([v], lambda ns: Val("M", "(k_ret ops (Brk %s))" % ns[0], ("ctrl",)))
+        if v.fail:
+            return Val("M", v.term, ("ctrl",), fail=True)
+        return self.g.seq([Val(v.kind, v.term, Translator.plain(v.ty))], lambda ns: Val("M", "(k_ret ops (Brk %s))" % ns[0], ("ctrl",)))
 
 class Translator:
-    def __init__(self):
-        self.w = World()
-        for rel in FILES:
-            self.w.load(rel)
+    def __init__(self, unit=None, used_prev=None):
+        self.unit = unit or UNITS[0]
+        self.x = bool(self.unit.get("xops"))
+        self.w = World(self.unit)
+        for rel in self.unit["files"]:
+            if isinstance(rel, tuple):
+                self.w.load(rel[0], only=rel[1])
+            else:
+                self.w.load(rel)
+        if self.unit.get("prelude", "").strip():
+            self.w.load("<prelude of unit %s>" % self.unit["name"], text=self.unit["prelude"])
+        self.w.finish()
         self.done = {}        # fn name -> text
         self.order = []
         self.inprogress = set()
         self.structs_used = set()
         self.sigs = {}
+        self.used_prev = used_prev       # (struct, field) pairs used in the previous pass; None in the first pass
+        self.used = set()
+        self.kept_cache = {}
+        self.variant_cache = {}
+        self.derived_cache = {}
+        self.enum_eq = set()
+        self.foreign_used = set()
+        self.externs_used = {}           # ext name -> Gallina type
+        self.file_list = [r[0] if isinstance(r, tuple) else r for r in self.unit["files"]]
+
+    def uname(self, f):
+        u = getattr(f, "uname", f.name)
+        if u is None:
+            raise Unsupported("%s is defined more than once and the definitions cannot be told apart" % f.name)
+        return u
+
+    def use_field(self, sn, fn):
+        self.used.add((sn, fn))
+
+    def resolved_fields(self, sn):
+        out, allres = [], True
+        for fn, ft in self.w.structs[sn]:
+            try:
+                out.append((fn, self.w.resolve(ft, self.w.struct_ctx(sn))))
+            except Unsupported:
+                allres = False
+        return out, allres
+
+    def kept_fields(self, sn):
+        """the fields of the generated record: all of them when every field type is in the subset, else the fields used"""
+        if sn in self.kept_cache:
+            return self.kept_cache[sn]
+        fields, allres = self.resolved_fields(sn)
+        if not allres and self.used_prev is not None:
+            fields = [(fn, rt) for fn, rt in fields if (sn, fn) in self.used_prev]
+        self.kept_cache[sn] = fields
+        return fields
+
+    def literal_fields(self, sn):
+        """a struct literal sets every field: those with a type in the subset count as used"""
+        fields, allres = self.resolved_fields(sn)
+        for fn, _ in fields:
+            self.use_field(sn, fn)
+        return self.kept_fields(sn)
+
+    def variant(self, en, vn, node, g):
+        """(kind, [payload types, `opaque` for those outside the subset], [field names]) of the variant en::vn"""
+        key = (en, vn)
+        if key not in self.variant_cache:
+            hit = [v for v in self.w.enums[en] if v[0] == vn]
+            if not hit:
+                raise Unsupported("%s:%d: in fn %s: the enum %s has no variant %s" % (g.fn.fname, getattr(node, "line", 0), g.fn.name, en, vn))
+            _, kind, fields = hit[0]
+            ctx = self.w.struct_ctx(en)
+            if kind == "struct":
+                tys = [self.w.resolve_or_opaque(t, ctx) for _, t in fields]
+                names = [f for f, _ in fields]
+            else:
+                tys = [self.w.resolve_or_opaque(t, ctx) for t in fields]
+                names = []
+            self.variant_cache[key] = (kind, tys, names)
+        kind, tys, names = self.variant_cache[key]
+        for t in tys:
+            g.note_struct(t)
+        return kind, tys, names
+
+    def derived(self, tname, method):
+        """the function item that `#[derive(Add, ..)]` (derive_more) stands for: the field-wise operation"""
+        key = (tname, method)
+        if key in self.derived_cache:
+            return self.derived_cache[key]
+        f = None
+        meta = self.w.meta.get(tname)
+        if meta is not None and tname in self.w.structs and method in DERIVABLE and any(d in meta["derives"] for d in DERIVABLE[method]):
+            op = {"add": "+", "sub": "-"}[method]
+            gens = meta["generics"]
+            gl = "<%s>" % ", ".join(gens) if gens else ""
+            ty = tname + gl
+            if meta["tuple"]:
+                body = "%s(%s)" % (tname, ", ".join("self.%s %s rhs.%s" % (fn, op, fn) for fn, _ in self.w.structs[tname]))
+            else:
+                body = "%s { %s }" % (tname, ", ".join("%s: self.%s %s rhs.%s" % (fn, fn, op, fn) for fn, _ in self.w.structs[tname]))
+            text = "impl%s std::ops::%s<%s> for %s { fn %s(self, rhs: %s) -> %s { %s } }" % (
+                gl, method.capitalize(), ty, ty, method, ty, ty, body)
+            out = parse_source(text, "<derive(%s) of %s, %s>" % (DERIVABLE[method][0], tname, self.w.struct_src[tname]))
+            f = out["allfns"][0]
+            f.clash = False
+            f.uname = f.name
+            self.w.overloads.setdefault(f.name, []).append(f)
+            self.w.fns[f.name] = f
+        self.derived_cache[key] = f
+        return f
+
+    def use_extern(self, f, g):
+        name = "ext_" + self.uname(f).replace("::", "_")
+        if name not in self.externs_used:
+            sig = self.signature(f)
+            for _, pt in sig["params"]:
+                g.note_struct(pt)
+            g.note_struct(sig["ret"])
+            self.externs_used[name] = (" -> ".join([cty(pt) for _, pt in sig["params"]] + ["M %s" % cty(self.plain(sig["ret"]))]),
+                                       "%s:%d  fn %s" % (f.fname, f.line, f.name))
+    def use_read(self, key, ty, g):
+        name = "ext_read_%s" % key
+        g.note_struct(ty)
+        if name not in self.externs_used:
+            self.externs_used[name] = ("kptr -> M %s" % cty(ty), "Ptr<%s>::read" % key)
+    @staticmethod
+    def plain(ty):
+        return ty[1] if ty is not None and ty[0] == "res" else ty
 
     def signature(self, f):
-        if f.name in self.sigs:
-            return self.sigs[f.name]
+        key = getattr(f, "uname", None) or f.name if not self.x else id(f)
+        if key in self.sigs:
+            return self.sigs[key]
         where = "%s:%d: fn %s" % (f.fname, f.line, f.name)
         if f.ret is None:
             raise Unsupported("%s: return type outside the subset (%s)" % (where, f.ret_bad))
+        ctx = self.w.fn_ctx(f) if self.x else Ctx(f.self_ty)
         ps, mut_self = [], False
         for pn, pt, m in f.params:
             if pn is None:
@@ -957,61 +2269,86 @@ class Translator:
             if pn == "self":
                 if f.self_ty is None:
                     raise Unsupported("%s: self outside an impl" % where)
-                ps.append(("self", self.w.resolve(f.self_ty)))
+                try:
+                    ps.append(("self", self.w.resolve(f.self_ty, ctx) if self.x else self.w.resolve(f.self_ty)))
+                except Unsupported as ex:
+                    raise Unsupported("%s: the type of self: %s" % (where, ex))
                 mut_self = m
             else:
                 try:
-                    ps.append((pn, self.w.resolve(pt, f.self_ty)))
+                    ps.append((pn, self.w.resolve(pt, ctx)))
                 except Unsupported as ex:
                     raise Unsupported("%s: parameter %s: %s" % (where, pn, ex))
         try:
-            ret = self.w.resolve(f.ret, f.self_ty)
+            ret = self.w.resolve(f.ret, ctx)
         except Unsupported as ex:
             raise Unsupported("%s: return type: %s" % (where, ex))
+        mut_res = False
         if mut_self:
-            if ret != ("unit",):
-                raise Unsupported("%s: a `&mut self` method that also returns a value" % where)
-            ret = ps[0][1]
-        sig = {"params": ps, "ret": ret, "mut_self": mut_self}
-        self.sigs[f.name] = sig
+            if self.x and ret == ("res", ("unit",)) and f.body_range is not None and mutates_self(parse_fn_body(f), self.unit.get("skip_recv", ())):
+                # `&mut self` with `Result<()>` that assigns to self: the new self, or the error
+                ret = ("res", ps[0][1])
+                mut_res = True
+            elif ret != ("unit",):
+                if not self.x:
+                    raise Unsupported("%s: a `&mut self` method that also returns a value" % where)
+                mut_self = False          # read as `&self`: the body is checked not to assign to self
+            else:
+                ret = ps[0][1]
+        sig = {"params": ps, "ret": ret, "mut_self": mut_self, "mut_res": mut_res}
+        self.sigs[key] = sig
         return sig
 
     def need(self, qn):
+        if qn not in self.w.fns:
+            raise Unsupported("function %s not found in %s" % (qn, ", ".join(self.file_list)))
+        f = self.w.fns[qn]
+        if f.clash:
+            raise Unsupported("%s is defined more than once in the translated files" % qn)
+        self.need_fn(f)
+
+    def need_fn(self, f):
+        qn = self.uname(f)
         if qn in self.done:
             return
         if qn in self.inprogress:
             raise Unsupported("recursion through %s is outside the subset" % qn)
-        if qn not in self.w.fns:
-            raise Unsupported("function %s not found in %s" % (qn, ", ".join(FILES)))
-        f = self.w.fns[qn]
-        if f.clash:
-            raise Unsupported("%s is defined more than once in the translated files" % qn)
+        if f.body_range is None:
+            raise Unsupported("%s has no body (it can only be external)" % qn)
         self.inprogress.add(qn)
         sig = self.signature(f)
         g = FnGen(self, f)
         g.mut_self_sig = sig["mut_self"]
+        g.mut_res_sig = sig.get("mut_res", False)
         body = parse_fn_body(f)
         env = {}
         for pn, pt in sig["params"]:
             env[pn] = pt
             g.note_struct(pt)
         g.note_struct(sig["ret"])
-        ret_ty = sig["ret"] if not sig["mut_self"] else ("unit",)
+        ret_ty = sig["ret"] if not sig["mut_self"] else ("unit",) if not sig.get("mut_res") else ("res", ("unit",))
         K = KFn(g, None if ret_ty == ("unit",) else ret_ty)
-        K.ret_ty = sig["ret"] if sig["mut_self"] else (None if ret_ty == ("unit",) else ret_ty)
+        K.ret_ty = (sig["ret"] if not sig.get("mut_res") else ret_ty) if sig["mut_self"] else (None if ret_ty == ("unit",) else ret_ty)
         K.val_ty = None if ret_ty == ("unit",) else ret_ty
         stm = body.stmts
         if ret_ty == ("unit",):
             stm = g.as_stmts(list(stm))
         v = g.stmts(stm, env, K)
         real_ret = sig["ret"]
-        if v.ty is not None and v.ty != real_ret and not (real_ret == ("unit",) and v.ty == ("unit",)):
+        if self.x:
+            try:
+                unify(v.ty, real_ret)
+            except ValueError:
+                raise Unsupported("%s:%d: fn %s: body of type %r, declared %r" % (f.fname, f.line, f.name, v.ty, real_ret))
+            if g.mut_self and not sig["mut_self"]:
+                raise Unsupported("%s:%d: fn %s: a `&mut self` method that returns a value and assigns to self" % (f.fname, f.line, f.name))
+        elif v.ty is not None and v.ty != real_ret and not (real_ret == ("unit",) and v.ty == ("unit",)):
             raise Unsupported("%s:%d: fn %s: body of type %r, declared %r" % (f.fname, f.line, f.name, v.ty, real_ret))
         name = "g_" + qn.replace("::", "_")
         params = "".join(" (ext_%s : %s)" % (x.replace("::", "_"), self.extern_ty(x)) for x in g.externs)
         params += "".join(" (%s : %s)" % (mangle(pn), cty(pt)) for pn, pt in sig["params"])
         txt = "".join(g.aux)
-        txt += "(* %s:%d  fn %s *)\nDefinition %s%s : M %s :=\n  %s.\n" % (f.fname, f.line, qn, name, params, cty(real_ret), g.toM(v))
+        txt += "(* %s:%d  fn %s *)\nDefinition %s%s : M %s :=\n  %s.\n" % (f.fname, f.line, qn, name, params, cty(self.plain(real_ret)), g.toM(v))
         self.structs_used |= g.structs_used
         self.inprogress.discard(qn)
         self.done[qn] = txt
@@ -1021,12 +2358,23 @@ class Translator:
         sig = self.signature(self.w.fns[qn])
         return "(" + " -> ".join([cty(pt) for _, pt in sig["params"]] + ["M %s" % cty(sig["ret"])]) + ")"
 
-    def struct_defs(self):
+    def type_defs(self):
+        """records and inductive types, each after the types it mentions"""
         out, seen = [], set()
+        self.type_args = []          # (type name, [Arguments lines]) in emission order, repeated after the Section
+        self.fdeps = {}              # type name -> foreign types it mentions (they become leading parameters after the Section)
+        cur = []
         def visit_ty(t):
-            if t[0] == "struct":
+            if t is None:
+                return
+            if t[0] in ("struct", "enum"):
                 visit(t[1])
-            elif t[0] in ("arr", "vec", "opt"):
+                if cur:
+                    self.fdeps[cur[-1]] |= self.fdeps.get(t[1], set())
+            elif t[0] == "foreign":
+                if cur:
+                    self.fdeps[cur[-1]].add(t[1])
+            elif t[0] in ("arr", "vec", "opt", "res"):
                 visit_ty(t[1])
             elif t[0] == "tup":
                 for x in t[1]:
@@ -1035,71 +2383,167 @@ class Translator:
             if name in seen:
                 return
             seen.add(name)
-            fields = []
-            for fn, ft in self.w.structs[name]:
-                try:
-                    rt = self.w.resolve(ft)
-                except Unsupported as ex:
-                    raise Unsupported("struct %s (%s), field %s: %s" % (name, self.w.struct_src[name], fn, ex))
-                visit_ty(rt)
-                fields.append((fn, rt))
-            if not fields:
-                out.append("(* %s  struct %s *)\nInductive g%s (F I : Type) : Type := mk_g%s.\nArguments mk_g%s {F I}.\n" % (self.w.struct_src[name], name, name, name, name))
+            self.fdeps[name] = set()
+            cur.append(name)
+            try:
+                visit1(name)
+            finally:
+                cur.pop()
+        def visit1(name):
+            if name in self.w.enums:
+                lines, args = [], []
+                for vn, kind, fields in self.w.enums[name]:
+                    ctx = self.w.struct_ctx(name)
+                    tys = [self.w.resolve_or_opaque(t if kind == "tuple" else t[1], ctx) for t in fields]
+                    for t in tys:
+                        visit_ty(t)
+                    lines.append("| g%s_%s%s" % (name, vn, "".join(" (_ : %s)" % cty(t) for t in tys)))
+                    args.append("Arguments g%s_%s {F I}%s.\n" % (name, vn, " _" * len(tys)))
+                self.type_args.append((name, list(args)))
+                txt = "(* %s  enum %s *)\nInductive g%s (F I : Type) : Type :=\n%s.\n%s" % (
+                    self.w.struct_src[name], name, name, "\n".join(lines), "".join(args))
+                if name in self.enum_eq:
+                    vs = [v[0] for v in self.w.enums[name]]
+                    txt += "Definition g%s_eqb {F I : Type} (a b : g%s F I) : bool :=\n  match a, b with %s | _, _ => false end.\n" % (
+                        name, name, " | ".join("g%s_%s, g%s_%s" % (name, v, name, v) for v in vs) + " => true") if len(vs) > 1 else \
+                        "Definition g%s_eqb {F I : Type} (a b : g%s F I) : bool := true.\n" % (name, name)
+                out.append(txt)
                 return
-            out.append("(* %s  struct %s *)\nRecord g%s (F I : Type) : Type := mk_g%s { %s }.\nArguments mk_g%s {F I}%s.\n%s" % (
-                self.w.struct_src[name], name, name, name, "; ".join("g%s_%s : %s" % (name, fn, cty(rt)) for fn, rt in fields),
+            if self.x:
+                fields = self.kept_fields(name)
+                dropped = [fn for fn, _ in self.w.structs[name] if fn not in dict(fields)]
+            else:
+                fields, dropped = [], []
+                for fn, ft in self.w.structs[name]:
+                    try:
+                        rt = self.w.resolve(ft)
+                    except Unsupported as ex:
+                        raise Unsupported("struct %s (%s), field %s: %s" % (name, self.w.struct_src[name], fn, ex))
+                    fields.append((fn, rt))
+            for fn, rt in fields:
+                visit_ty(rt)
+            note = "" if not dropped else "  -- without the fields %s (not used by the translated functions, or of a type outside the subset)" % ", ".join(dropped)
+            if not fields:
+                out.append("(* %s  struct %s%s *)\nInductive g%s (F I : Type) : Type := mk_g%s.\nArguments mk_g%s {F I}.\n" % (self.w.struct_src[name], name, note, name, name, name))
+                self.type_args.append((name, ["Arguments mk_g%s {F I}.\n" % name]))
+                return
+            self.type_args.append((name, ["Arguments mk_g%s {F I}%s.\n" % (name, " _" * len(fields))] +
+                                   ["Arguments g%s_%s {F I} _.\n" % (name, fn) for fn, _ in fields]))
+            out.append("(* %s  struct %s%s *)\nRecord g%s (F I : Type) : Type := mk_g%s { %s }.\nArguments mk_g%s {F I}%s.\n%s" % (
+                self.w.struct_src[name], name, note, name, name, "; ".join("g%s_%s : %s" % (name, fn, cty(rt)) for fn, rt in fields),
                 name, " _" * len(fields), "".join("Arguments g%s_%s {F I} _.\n" % (name, fn) for fn, _ in fields)))
-        for s in sorted(self.structs_used):
-            visit(s)
+        for s_ in sorted(self.structs_used):
+            visit(s_)
         return out
+    struct_defs = type_defs
 
-def main():
+def run_unit(unit):
+    """-> (ok, message, failed list) for one unit"""
     failed = []
-    try:
-        tr = Translator()
-    except Unsupported as ex:
-        return False, "translate_rust_kernels: cannot read the sources:\n  %s" % ex
-    for fam, qn in TARGETS:
+    used_prev = None
+    for npass in range(4):
         try:
-            tr.need(qn)
+            tr = Translator(unit, used_prev)
         except Unsupported as ex:
-            # the function (or one it calls) is left out of the generated file: the tie lemmas about it no longer build
-            tr.inprogress.clear()
-            failed.append((fam, qn, str(ex)))
+            return False, "translate_rust_kernels: cannot read the sources:\n  %s" % ex, []
+        failed = []
+        for fam, qn in unit["targets"]:
+            try:
+                tr.need(qn)
+            except Unsupported as ex:
+                # the function (or one it calls) is left out of the generated file: the tie lemmas about it no longer build
+                tr.inprogress.clear()
+                failed.append((fam, qn, str(ex)))
+        if not unit.get("xops") or (used_prev is not None and tr.used == used_prev):
+            break
+        used_prev = set(tr.used)      # the records of this unit depend on the fields used: once more with the set known
+    out_path = os.path.join(COQ_DIR, "Gen", unit["out"])
     try:
-        structs = tr.struct_defs()
+        structs = tr.type_defs()
     except Unsupported as ex:
-        return False, "translate_rust_kernels: %s" % ex
-    L = ["(** GENERATED by tools/translate_rust_kernels.py from %s -- do not edit." % ", ".join("/repo/" + f for f in FILES if f not in ALIAS_ONLY),
-         "    One definition per Rust function (g_<Type>_<fn>), one record per struct (g<Struct>), parametric in the",
-         "    primitive operations [kops M F I] of Base/KernelOps.v. The translation scheme is described there and in",
-         "    the translator. Tied to the hand-written models in Geom/KernelsTie*_proofs.v, Properties/Kernels.v. *)",
-         "From Coq Require Import ZArith Bool List.",
-         "From L21 Require Import Base.KernelOps.",
-         "",
-         ]
-    L += structs
-    L += ["Section Kernels.",
-          "Context {M : Type -> Type} {F I : Type} (ops : kops M F I).",
-          ""]
+        return False, "translate_rust_kernels: %s" % ex, failed
+    srcs = ", ".join("/repo/" + f for f in tr.file_list if f not in unit.get("alias_only", ()))
+    if not unit.get("xops"):
+        L = ["(** GENERATED by tools/translate_rust_kernels.py from %s -- do not edit." % srcs,
+             "    One definition per Rust function (g_<Type>_<fn>), one record per struct (g<Struct>), parametric in the",
+             "    primitive operations [kops M F I] of Base/KernelOps.v. The translation scheme is described there and in",
+             "    the translator. Tied to the hand-written models in Geom/KernelsTie*_proofs.v, Properties/Kernels.v. *)",
+             "From Coq Require Import ZArith Bool List.",
+             "From L21 Require Import Base.KernelOps.",
+             "",
+             ]
+        L += structs
+        L += ["Section Kernels.",
+              "Context {M : Type -> Type} {F I : Type} (ops : kops M F I).",
+              ""]
+    else:
+        L = ["(** GENERATED by tools/translate_rust_kernels.py (unit %s) from %s -- do not edit." % (unit["name"], srcs),
+             "    One definition per Rust function (g_<Type>_<fn>), one record per struct (g<Struct>), one inductive type per",
+             "    enum (g<Enum>), parametric in the primitive operations [kxops M F I] of Base/KernelOpsX.v; functions kept",
+             "    external and types of other crates are the Section variables ext_* / T_*. The translation scheme is",
+             "    described in Base/KernelOps.v, Base/KernelOpsX.v and in the translator. *)",
+             "From Coq Require Import ZArith Bool List.",
+             "From L21 Require Import Base.KernelOps Base.KernelOpsX.",
+             "",
+             ]
+        L += ["Section Kernels.",
+              "Context {M : Type -> Type} {F I : Type} (xops : kxops M F I).",
+              "Notation ops := (kx_base xops).",
+              ""]
+        if tr.foreign_used:
+            L += ["(* types of other crates / types the models keep abstract *)",
+                  "Variables %s : Type." % " ".join("T_" + n for n in sorted(tr.foreign_used)), ""]
+        L += structs
+        for name in sorted(tr.externs_used):
+            ty, src = tr.externs_used[name]
+            L += ["(* %s *)" % src, "Variable %s : %s." % (name, ty)]
+        if tr.externs_used:
+            L.append("")
     for qn in tr.order:
         L.append(tr.done[qn])
     L += ["End Kernels.", ""]
+    if unit.get("xops"):
+        L.append("(* the implicit arguments of the constructors and projections, as inside the Section *)")
+        for name, lines in tr.type_args:
+            pre = "".join(" T_" + n for n in sorted(tr.fdeps.get(name, ())))
+            for l in lines:
+                L.append(l.strip().replace(" {F I}", pre + " {F I}", 1))
+        L.append("")
     txt = "\n".join(L)
-    old = open(OUT).read() if os.path.exists(OUT) else None
-    n = "%d functions, %d structs" % (len(tr.order), len(structs))
+    old = open(out_path).read() if os.path.exists(out_path) else None
+    n = "%d functions, %d %s" % (len(tr.order), len(structs), "structs" if not unit.get("xops") else "types")
     if old != txt:
-        os.makedirs(os.path.dirname(OUT), exist_ok=True)
-        with open(OUT, "w") as f:
+        os.makedirs(os.path.dirname(out_path), exist_ok=True)
+        with open(out_path, "w") as f:
             f.write(txt)
-        msg = "rewrote %s (%s)" % (OUT, n)
+        msg = "rewrote %s (%s)" % (out_path, n)
     else:
-        msg = "unchanged %s (%s)" % (OUT, n)
+        msg = "unchanged %s (%s)" % (out_path, n)
+    return True, msg, failed
+
+def main():
+    """-> (ok, message).  ok is False when a function of the FIRST unit (families transform / contains / raw / gds, whose
+    checks all run this script through vlib.run_translators) no longer translates.  A failure in a later unit is printed the
+    same way (`FAILED family=.. fn=..`) but does not make the script fail: it belongs to the one property whose check calls
+    kernel_tie_leg for that family (tools/props/kernelcommon.py reads the FAILED lines), not to every property that
+    regenerates the kernels."""
+    only = os.environ.get("KERNEL_UNITS")
+    msgs, failed, ok = [], [], True
+    for unit in UNITS:
+        if only and unit["name"] not in only.split(","):
+            continue
+        u_ok, msg, fl = run_unit(unit)
+        if not unit.get("xops"):
+            ok = ok and u_ok and not fl
+        elif not u_ok:
+            fl = fl + [(fam, "*", msg) for fam in sorted({f for f, _ in unit["targets"]})]
+        msgs.append(msg)
+        failed += fl
+    msg = "\n".join(msgs)
     if failed:
         msg += "\ntranslate_rust_kernels: these functions no longer fit the supported subset of Rust (tools/rustsubset.py) and are left out:\n"
-        msg += "\n".join("FAILED family=%s fn=%s: %s" % f for f in failed)
-        return False, msg
-    return True, msg
+        msg += "\n".join("FAILED family=%s fn=%s: %s" % (a, b, " ".join(c.split())) for a, b, c in failed)
+    return ok, msg
 
 if __name__ == "__main__":
     ok, msg = main()
